@@ -15,7 +15,7 @@ From PyecoreV Require Import Lib.PyBase Lib.PyList Model.Kernel Model.KernelIO M
      Proofs.PyListFacts Proofs.KernelFacts Proofs.C01Proofs Proofs.C01Full Proofs.C03Proofs Proofs.C02Proofs
      Proofs.WFBase Proofs.WFRemove Proofs.SymLink Proofs.OwnPrim Proofs.OwnAdd Proofs.OwnSet Proofs.OwnColl
      Proofs.OwnAll Proofs.C06Proofs Proofs.C06Refs.
-From PyecoreV Require Proofs.C07Full.
+From PyecoreV Require Proofs.C07Full Proofs.C19Once Proofs.Acyclic.
 Import ListNotations.
 Open Scope nat_scope.
 
@@ -940,642 +940,200 @@ Proof.
 Qed.
 
 (* ====================================================================== *)
-(* 2b. The invariant for metamodels WITH containment and the lift to words *)
+(* 2a'. Move inside a containment collection (re-ordering children)         *)
 (* ====================================================================== *)
-(* WF (symmetry, shape, ownership, resources; Proofs/WFBase.v, preserved by every kernel operation:
-   Proofs/OwnAll.v) + typed slots (C03) + duplicate-free unique attribute collections (C04) *)
-Definition K (m : mm) (s : state) : Prop := WF m s /\ typed m s /\ uniq_attr m s.
-
-Lemma K_obs_eq m s t : obs_eq s t -> K m s -> K m t.
-Proof.
-  intros (A & B & C & D) (HW & HT & HU). split; [|split].
-  - apply (WF_ext m s t); try (intros; symmetry; auto); exact HW.
-  - apply (typed_ext m s t); [intros k; symmetry; apply A | exact HT].
-  - intros x f H1 H2 H3. rewrite <- A. apply HU; assumption.
-Qed.
-
-(* where a successful primitive command leaves the model, as a kernel procedure *)
-Lemma exec_set_state m s x f v p s' c' :
-  execute m s (CSet x f v p) = ((None, s'), c') -> s' = snd (set_full m s (x, f) v).
-Proof. cbn [execute]. intros H. apply pair_eq_inv in H. destruct H as [H _]. rewrite H. reflexivity. Qed.
-
-Lemma exec_add_state m s x f v idx c1 s' c2 :
-  can_execute m s (CAdd x f v idx) = (Ok true, c1) -> execute m s c1 = ((None, s'), c2) ->
-  exists pos, s' = snd (coll_add_full m s (x, f) pos v).
-Proof.
-  intros HC HE. cbn [can_execute] in HC. destruct (negb (base_can m x f)); [discriminate|].
-  destruct (negb (f_many (fd m f))); [discriminate|]. apply pair_eq_inv in HC. destruct HC as [_ <-].
-  cbn [execute] in HE. destruct idx as [i|]; apply pair_eq_inv in HE; destruct HE as [H _];
-    eexists; rewrite H; reflexivity.
-Qed.
-
-Lemma exec_remove_state m s x f v idx c1 s' c2 :
-  can_execute m s (CRemove x f v idx) = (Ok true, c1) -> execute m s c1 = ((None, s'), c2) ->
-  exists i, s' = snd (fst (coll_pop_full m s (x, f) i)).
-Proof.
-  intros HC HE. cbn [can_execute] in HC. destruct (negb (base_can m x f)); [discriminate|].
-  destruct (negb (f_many (fd m f))); [discriminate|].
-  assert (EX : exists v1 idx1, c1 = CRemove x f v1 idx1).
-  { destruct idx as [i0|].
-    - destruct (py_get i0 (vals s (x, f))); apply pair_eq_inv in HC; destruct HC as [_ Hc]; subst c1; eauto.
-    - apply pair_eq_inv in HC; destruct HC as [_ Hc]; subst c1; eauto. }
-  destruct EX as (v1 & idx1 & ->). cbn [execute] in HE.
-  match type of HE with (match ?ri with _ => _ end) = _ => destruct ri as [i|e0] end.
-  - exists i. destruct (coll_pop_full m s (x, f) i) as [o w]. apply pair_eq_inv in HE. destruct HE as [H _].
-    rewrite H. reflexivity.
-  - apply pair_eq_inv in HE. destruct HE as [H _]. discriminate.
-Qed.
-
-Section Lift.
+(* Move = pop + insert on the same collection.  Generic part: whenever `pop then insert the popped element`
+   changes nothing but the order of the slot, Move inverts (index bookkeeping as for attribute collections). *)
+Section MoveGen.
 Variable m : mm.
-Hypothesis W : wf_mm m.
-Hypothesis Hrt : ref_typed m.
+Variable x : oid.
+Variable f : fid.
+Variable good : state -> value -> Prop.     (* what pop + insert needs to know about an element *)
+Hypothesis Hmany : f_many (fd m f) = true.
+Hypothesis good_obs : forall t t' w, obs_eq t' t -> good t w -> good t' w.
+Hypothesis good_only : forall t t' l w, only_cell t t' (x, f) l -> good t w -> good t' w.
+Hypothesis pop_add : forall t i w l1 j,
+  py_pop i (vals t (x, f)) = Some (w, l1) -> good t w -> (f_unique (fd m f) = true -> vmem w l1 = false) ->
+  exists t1, coll_pop_full m t (x, f) i = ((None, t1), Some w) /\ vals t1 (x, f) = l1 /\
+  exists t2, coll_add_full m t1 (x, f) (Some j) w = (None, t2) /\ only_cell t t2 (x, f) (py_insert j w l1).
 
-Lemma K_cell_wt_single s (x : oid) (f : fid) : K m s -> f_many (fd m f) = false -> cell_wt m f (vals s (x, f)).
-Proof.
-  intros (HW & HT & _) M. unfold cell_wt. rewrite M.
-  destruct (proj1 (wf_shape m s HW x f) M) as (v & Hv). exists v. split; [exact Hv|].
-  pose proof (HT (x, f) v) as Ho. rewrite Hv in Ho. specialize (Ho (or_introl eq_refl)).
-  unfold okv in Ho. cbn [snd] in Ho. rewrite M in Ho. exact Ho.
-Qed.
-
-Lemma K_cell_wt_attr s (x : oid) (f : fid) : K m s -> attr_many m f -> cell_wt m f (vals s (x, f)).
-Proof.
-  intros (_ & HT & HU) [M R]. unfold cell_wt. rewrite M. split.
-  - intros v Hv. pose proof (HT (x, f) v Hv) as Ho. unfold okv in Ho. cbn [snd] in Ho. rewrite M in Ho. exact Ho.
-  - intros U. apply HU; assumption.
-Qed.
-
-(* a slot of a reference holds objects or None *)
-Lemma ref_slot_cases s (a : oid) (f : fid) w :
-  typed m s -> f_isref (fd m f) = true -> In w (vals s (a, f)) -> w = VNone \/ exists o, w = VObj o.
-Proof.
-  intros HT R Hw. pose proof (HT (a, f) w Hw) as Ho. unfold okv in Ho. cbn [snd] in Ho.
-  destruct (Hrt f R) as (c & Ec). unfold check_elem, check_single in Ho. rewrite R, Ec in Ho.
-  destruct w; [left; reflexivity | right; eexists; reflexivity | | | | | ];
-    destruct (f_many (fd m f)); simpl in Ho; discriminate.
-Qed.
-
-Lemma check_elem_of_typed s (a : oid) (f : fid) w :
-  typed m s -> f_many (fd m f) = true -> In w (vals s (a, f)) -> check_elem m f w = true.
-Proof. intros HT M Hw. pose proof (HT (a, f) w Hw) as Ho. unfold okv in Ho. cbn [snd] in Ho. rewrite M in Ho. exact Ho. Qed.
-
-(* a child listed in a containment slot: container pointer, no root of a resource *)
-Lemma child_facts_plain s (x : oid) (f : fid) (y : oid) :
-  WF m s -> f_cont (fd m f) = true -> In (VObj y) (vals s (x, f)) -> cont s y = Some (x, f) /\ not_root s y.
-Proof.
-  intros HW Hc Hin. assert (Cy : cont s y = Some (x, f)) by (apply (wf_own m s HW); split; assumption).
-  split; [exact Cy|]. unfold not_root. destruct (eres s y) as [r|] eqn:Er; [|exact I].
-  exfalso. apply (proj2 (wf_res m s HW)) in Er. apply (wf_roots m s HW) in Er. congruence.
-Qed.
-
-(* ... and with a container end: the child points back *)
-Lemma child_facts s (x : oid) (f g : fid) (y : oid) :
-  WF m s -> ce_pair m f g -> In (VObj y) (vals s (x, f)) ->
-  cont s y = Some (x, f) /\ not_root s y /\ vals s (y, g) = [VObj x].
-Proof.
-  intros HW CP Hin. destruct (child_facts_plain s x f y HW (ce_cont_f m f g CP) Hin) as [A B].
-  split; [exact A|]. split; [exact B|].
-  destruct (proj1 (wf_shape m s HW y g) (ce_single_g m f g CP)) as (v & Hv).
-  pose proof (proj1 (wf_sym m s HW f g (ce_opp_f m f g CP) x y) Hin) as Hb. unfold R in Hb. rewrite Hv in Hb.
-  destruct Hb as [<-|[]]. exact Hv.
-Qed.
-
-(* an object without container has an empty container end *)
-Lemma unowned_g_none s (f g : fid) (y : oid) :
-  K m s -> ce_pair m f g -> cont s y = None -> vals s (y, g) = [VNone].
-Proof.
-  intros (HW & HT & _) CP Cy.
-  destruct (proj1 (wf_shape m s HW y g) (ce_single_g m f g CP)) as (v & Hv). rewrite Hv. f_equal.
-  destruct (ref_slot_cases s y g v HT (ce_ref_g m f g CP)) as [E|(c & E)]; [rewrite Hv; left; reflexivity | exact E |].
-  exfalso. subst v.
-  assert (Hin : In (VObj y) (vals s (c, f))).
-  { apply (wf_sym m s HW f g (ce_opp_f m f g CP) c y). unfold R. rewrite Hv. left. reflexivity. }
-  destruct (child_facts_plain s c f y HW (ce_cont_f m f g CP) Hin) as [A _]. congruence.
-Qed.
-
-Lemma uniq_attr_refcells s s' :
-  (forall (a : oid) (h : fid), f_isref (fd m h) = false -> f_many (fd m h) = true -> vals s' (a, h) = vals s (a, h)) ->
-  uniq_attr m s -> uniq_attr m s'.
-Proof. intros Fr HU a h H1 H2 H3. rewrite Fr by assumption. apply HU; assumption. Qed.
-
-(* ---------- the three containment-with-opposite theorems from the invariant ---------- *)
-Theorem add_ce_undo_redo s (f g : fid) (x y : oid) idx c1 s' c' :
-  K m s -> f_cont (fd m f) = true -> f_opp (fd m f) = Some g -> f_many (fd m f) = true ->
-  unowned m s y ->
-  can_execute m s (CAdd x f (VObj y) idx) = (Ok true, c1) ->
+Lemma move_gen_inverts s v from to c1 s' c' :
+  (forall w, In w (vals s (x, f)) -> good s w) ->
+  (forall i w l1, py_pop i (vals s (x, f)) = Some (w, l1) -> f_unique (fd m f) = true -> vmem w l1 = false) ->
+  (is_none v = true \/ from = None) ->
+  can_execute m s (CMove x f v from to) = (Ok true, c1) ->
   execute m s c1 = ((None, s'), c') ->
-  exists i', c' = CAdd x f (VObj y) (Some i') /\
-             inverts m c' s s' /\
-             cc2 s s' x f (py_insert i' (VObj y) (vals s (x, f))) y g [VObj x] (Some (x, f)).
+  exists fr w to' l2, c' = CMove x f w (Some fr) to' /\ inverts m c' s s' /\ only_cell s s' (x, f) l2.
 Proof.
-  intros HK Hc Ho M Hu HC HE. pose proof (ce_pair_of_wf m f g W Hc Ho) as CP.
-  exact (add_ce_inverts m f g s x y idx c1 s' c' CP M Hu (unowned_g_none s f g y HK CP (proj1 Hu)) HC HE).
+  intros Hgood Habs Hx HC HE. set (l := vals s (x, f)) in *.
+  cbn [can_execute] in HC. destruct (negb (base_can m x f)); [discriminate|]. rewrite Hmany in HC. cbn [negb] in HC.
+  fold l in HC.
+  assert (EX : exists fr0 v1, c1 = CMove x f v1 (Some fr0) to /\
+                              (0 <= (if fr0 <? 0 then fr0 + zlen l else fr0))%Z).
+  { destruct (is_none v) eqn:Nv.
+    - destruct from as [i0|]; [|apply pair_eq_inv in HC; destruct HC; discriminate].
+      destruct (py_get i0 l) as [w0|] eqn:G; [|apply pair_eq_inv in HC; destruct HC; discriminate].
+      apply pair_eq_inv in HC. destruct HC as [_ Hc]. exists i0, w0. split; [symmetry; exact Hc|].
+      destruct (py_get_norm i0 l w0 G) as (k & N & _). rewrite (norm_index_neg_shift _ _ _ N).
+      apply norm_index_range in N. lia.
+    - destruct Hx as [Hx|Hx]; [discriminate|]. subst from.
+      destruct (index_of veqb v l) as [n|]; [|apply pair_eq_inv in HC; destruct HC; discriminate].
+      apply pair_eq_inv in HC. destruct HC as [_ Hc]. exists (Z.of_nat n), v. split; [symmetry; exact Hc|].
+      rewrite nonneg_shift; lia. }
+  destruct EX as (fr0 & v1 & Hc1 & Hfr). subst c1. clear HC.
+  cbn [execute] in HE. unfold do_move in HE. fold l in HE.
+  set (fr := (if fr0 <? 0 then fr0 + zlen l else fr0)%Z) in *.
+  destruct (coll_pop_full m s (x, f) fr) as [[[e|] s1] w] eqn:EP;
+    [apply pair_eq_inv in HE; destruct HE; discriminate|].
+  destruct (pop_full_inv m s x f fr s1 w EP) as (w' & l1 & Pp & Ew). subst w. fold l in Pp.
+  destruct (py_pop_nonneg fr l w' l1 Hfr Pp) as (Hlt & Nth & El1).
+  assert (Gw : good s w') by (apply Hgood; eapply nth_error_In; exact Nth).
+  assert (Abs : f_unique (fd m f) = true -> vmem w' l1 = false) by (intros U; exact (Habs fr w' l1 Pp U)).
+  set (to' := ins_pos (zlen l1) to).
+  assert (Rto : (0 <= to' <= zlen l1)%Z) by (apply clamp_index_range, zlen_nonneg).
+  destruct (pop_add s fr w' l1 to' Pp Gw Abs) as (s1' & E1 & V1 & s2 & E2 & OC).
+  rewrite EP in E1. inversion E1; subst s1'. clear E1.
+  apply pair_eq_inv in HE. destruct HE as [H1 H2]. rewrite V1 in H1, H2. fold to' in H1, H2.
+  rewrite E2 in H1. inversion H1; subst s2. clear H1.
+  set (l2 := py_insert to' w' l1) in *.
+  exists fr, w', to', l2. split; [symmetry; exact H2|]. split; [|exact OC].
+  subst c'. split.
+  - intros t Ht. pose proof Ht as (Vt & _). cbn [can_undo undo idx_or0].
+    rewrite (Vt (x, f)), (only_cell_vals _ _ _ _ OC). unfold l2 at 1.
+    rewrite (py_get_insert to' w' l1 Rto), value_is_refl. split; [reflexivity|].
+    assert (Pt : py_pop to' (vals t (x, f)) = Some (w', l1)).
+    { rewrite (Vt (x, f)), (only_cell_vals _ _ _ _ OC). apply py_pop_insert. exact Rto. }
+    assert (Gt : good t w') by (apply (good_obs s' t w' Ht); exact (good_only s s' _ w' OC Gw)).
+    destruct (pop_add t to' w' l1 fr Pt Gt Abs) as (t1 & Et1 & Vt1 & t' & Et & OCt).
+    rewrite Et1, Et. exists t'. split; [reflexivity|].
+    apply (only_cell_back s s' t t' (x, f) _ OC Ht). fold l.
+    rewrite (py_insert_pop fr l w' l1 Hfr Pp) in OCt. exact OCt.
+  - intros t Ht. pose proof Ht as (Vt & _). cbn [redo]. unfold do_move.
+    rewrite (Vt (x, f)). fold l. rewrite (nonneg_shift (zlen l) fr Hfr).
+    assert (Pt : py_pop fr (vals t (x, f)) = Some (w', l1)) by (rewrite (Vt (x, f)); exact Pp).
+    assert (Gt : good t w') by (exact (good_obs s t w' Ht Gw)).
+    destruct (pop_add t fr w' l1 to' Pt Gt Abs) as (t1 & Et1 & Vt1 & t' & Et & OCt).
+    rewrite Et1, Vt1.
+    assert (Eto : ins_pos (zlen l1) to' = to') by (apply clamp_index_id; exact Rto).
+    rewrite Eto, Et. exists t'. split; [reflexivity|].
+    apply (only_cell_again s s' t t' (x, f) _ OC Ht). exact OCt.
 Qed.
 
-Lemma many_ref_objs s (x : oid) (f : fid) w :
-  typed m s -> f_isref (fd m f) = true -> f_many (fd m f) = true -> In w (vals s (x, f)) -> exists y, w = VObj y.
-Proof.
-  intros HT R M Hw. destruct (ref_slot_cases s x f w HT R Hw) as [E|E]; [|exact E].
-  exfalso. subst w. pose proof (check_elem_of_typed s x f VNone HT M Hw) as C. unfold check_elem in C. rewrite R in C. discriminate.
-Qed.
+End MoveGen.
 
-Theorem remove_ce_undo_redo s (f g : fid) (x : oid) v idx c1 s' c' :
-  K m s -> f_cont (fd m f) = true -> f_opp (fd m f) = Some g -> f_many (fd m f) = true ->
-  can_execute m s (CRemove x f v idx) = (Ok true, c1) ->
-  execute m s c1 = ((None, s'), c') ->
-  exists i y l2, c' = CRemove x f (VObj y) (Some i) /\
-                 inverts m c' s s' /\ cc2 s s' x f l2 y g [VNone] None.
-Proof.
-  intros HK Hc Ho M HC HE. pose proof (ce_pair_of_wf m f g W Hc Ho) as CP. destruct HK as (HW & HT & HU).
-  apply (remove_ce_inverts m f g s x v idx c1 s' c' CP M); try assumption.
-  - apply (proj2 (wf_shape m s HW x f)). right. exact Hc.
-  - intros w Hw. destruct (many_ref_objs s x f w HT (ce_ref_f m f g CP) M Hw) as (y & ->).
-    destruct (child_facts s x f g y HW CP Hw) as (A & B & C).
-    exists y. repeat split; try assumption. exact (check_elem_of_typed s x f _ HT M Hw).
-Qed.
-
-Theorem set_ce_undo_redo s (f g : fid) (x : oid) v p0 s' c' :
-  K m s -> f_cont (fd m f) = true -> f_opp (fd m f) = Some g -> f_many (fd m f) = false ->
-  (forall y, v = VObj y -> unowned m s y) ->
-  execute m s (CSet x f v p0) = ((None, s'), c') ->
-  inverts m c' s s' /\
-  (forall k, vals s' k = SetV (vals s) x f g v (single s (x, f)) k) /\
-  (forall o, cont s' o = cont_after (cont s) x f v (single s (x, f)) o) /\
-  (forall o, eres s' o = eres s o) /\ (forall r, rcont s' r = rcont s r).
-Proof.
-  intros HK Hc Ho M Hu HE. pose proof (ce_pair_of_wf m f g W Hc Ho) as CP.
-  apply (set_ce_inverts m f g s x v p0 s' c' CP M (K_cell_wt_single s x f HK M)); try assumption.
-  - intros y Ey. split; [exact (Hu y Ey) | exact (unowned_g_none s f g y HK CP (proj1 (Hu y Ey)))].
-  - intros p Ep. apply (child_facts s x f g p (proj1 HK) CP). rewrite Ep. left. reflexivity.
-Qed.
-
-(* ---------- K after the primitive commands ---------- *)
-Lemma K_only_cell_attr s s' (x : oid) (f : fid) l1 :
-  K m s -> f_isref (fd m f) = false -> only_cell s s' (x, f) l1 -> cell_wt m f l1 -> K m s'.
-Proof.
-  intros (HW & HT & HU) R (V & C & E & Rc) CW.
-  assert (Fr : forall k, k <> (x, f) -> vals s' k = vals s k).
-  { intros k Nk. rewrite V. apply upd_other. intros E0; apply Nk; symmetry; exact E0. }
-  assert (Eo : vals s' (x, f) = l1) by (rewrite V; apply upd_same).
-  split; [|split].
-  - apply (C07Full.WF_attr_write m W s s' x f l1 HW R); try assumption.
-    intros M. unfold cell_wt in CW. rewrite M in CW. destruct CW as (v & Ev & _). exists v. exact Ev.
-  - intros k v Hv. destruct (cell_eqb_spec k (x, f)) as [E0|N].
-    + subst k. rewrite Eo in Hv. unfold okv. cbn [snd]. unfold cell_wt in CW.
-      destruct (f_many (fd m f)); [apply (proj1 CW); exact Hv|].
-      destruct CW as (w & Ew & Cw). rewrite Ew in Hv. destruct Hv as [<-|[]]. exact Cw.
-    + rewrite (Fr k N) in Hv. exact (HT k v Hv).
-  - intros a h H1 H2 H3. destruct (cell_eqb_spec (a, h) (x, f)) as [E0|N].
-    + inversion E0; subst a h. rewrite Eo. unfold cell_wt in CW. rewrite H2 in CW. apply (proj2 CW). exact H3.
-    + rewrite (Fr _ N). apply HU; assumption.
-Qed.
-
-Lemma K_set s s' (x : oid) (f : fid) v :
-  K m s -> f_many (fd m f) = false -> (forall y, v = VObj y -> opp_typed m x f) ->
-  s' = snd (set_full m s (x, f) v) ->
-  (forall (a : oid) (h : fid), f_isref (fd m h) = false -> f_many (fd m h) = true -> vals s' (a, h) = vals s (a, h)) ->
-  K m s'.
-Proof.
-  intros (HW & HT & HU) M Hot -> Fr. split; [|split].
-  - apply (WF_set_full m W); assumption.
-  - apply typed_set_full; assumption.
-  - exact (uniq_attr_refcells s _ Fr HU).
-Qed.
-
-Lemma K_add s s' (x : oid) (f : fid) pos v :
-  K m s -> f_many (fd m f) = true -> opp_typed m x f ->
-  s' = snd (coll_add_full m s (x, f) pos v) ->
-  (forall (a : oid) (h : fid), f_isref (fd m h) = false -> f_many (fd m h) = true -> vals s' (a, h) = vals s (a, h)) ->
-  K m s'.
-Proof.
-  intros (HW & HT & HU) M Hot -> Fr. split; [|split].
-  - apply (WF_coll_add_full m W); assumption.
-  - apply typed_coll_add_full; assumption.
-  - exact (uniq_attr_refcells s _ Fr HU).
-Qed.
-
-Lemma K_pop s s' (x : oid) (f : fid) i :
-  K m s -> f_many (fd m f) = true ->
-  s' = snd (fst (coll_pop_full m s (x, f) i)) ->
-  (forall (a : oid) (h : fid), f_isref (fd m h) = false -> f_many (fd m h) = true -> vals s' (a, h) = vals s (a, h)) ->
-  K m s'.
-Proof.
-  intros (HW & HT & HU) M -> Fr. split; [|split].
-  - apply (WF_pop m W); assumption.
-  - apply typed_coll_pop_full; assumption.
-  - exact (uniq_attr_refcells s _ Fr HU).
-Qed.
-
-Lemma nodupv_of_objs l : (forall w, In w l -> exists y, w = VObj y) -> nodup_objs l -> nodupv l = true.
-Proof.
-  unfold nodup_objs. induction l as [|a r IH]; intros Ho ND; [reflexivity|].
-  destruct (Ho a (or_introl eq_refl)) as (y & ->). simpl in ND. inversion ND as [|? ? Hn ND']; subst.
-  cbn [nodupv]. rewrite IH; [|intros w Hw; apply Ho; right; exact Hw | exact ND'].
-  rewrite andb_true_r. apply negb_true_iff. apply vmem_obj_false. rewrite <- objs_of_In. exact Hn.
-Qed.
-
-(* ---------- the side condition of a primitive command in the state it meets ---------- *)
-(* the kinds of C06Proofs.v (attributes, plain references), or Set / Add / Remove on a containment
-   reference - with or without a container end as opposite - that puts only an unowned child under
-   the owner (the property's `does not take its value away from another container`); opp_typed: the
-   owner conforms to the type of the container end *)
-Definition covered3 (s : state) (c : cmd) : Prop :=
-  covered m c \/
-  match c with
-  | CSet x f v _ => f_cont (fd m f) = true /\ f_many (fd m f) = false /\
-                    (forall y, v = VObj y -> unowned m s y /\ opp_typed m x f)
-  | CAdd x f v _ => exists y, v = VObj y /\ f_cont (fd m f) = true /\ f_many (fd m f) = true /\
-                              unowned m s y /\ opp_typed m x f
-  | CRemove x f v _ => f_cont (fd m f) = true /\ f_many (fd m f) = true
-  | _ => False
-  end.
-
-Lemma nonref_neq (h f : fid) : f_isref (fd m h) = false -> f_isref (fd m f) = true -> h <> f.
-Proof. intros A B E. subst h. congruence. Qed.
-
-Lemma cell_neq_feat (a b : oid) (h f : fid) : h <> f -> ((b, f) : cell) <> (a, h).
-Proof. intros N E. inversion E. congruence. Qed.
-
-Lemma opp_typed_noopp (x : oid) (f : fid) : f_opp (fd m f) = None -> opp_typed m x f.
-Proof. intros H g E. congruence. Qed.
-
-Lemma covered3_exec s c c1 s' c2 :
-  K m s -> covered3 s c ->
-  can_execute m s c = (Ok true, c1) -> execute m s c1 = ((None, s'), c2) ->
-  inverts m c2 s s' /\ K m s'.
-Proof.
-  intros HK [Cv|Cv] HC HE.
-  - (* the kinds of C06Proofs.v *)
-    destruct c as [x f v p|x f v idx|x f v idx|x f v from to| |]; simpl in Cv; try contradiction.
-    + destruct Cv as [P M]. cbn [can_execute] in HC. apply pair_eq_inv in HC. destruct HC as [_ Hc]. subst c1.
-      destruct (set_inverts m s x f v p s' c2 P M (K_cell_wt_single s x f HK M) HE) as (I & OC & CW).
-      split; [exact I|]. destruct (f_isref (fd m f)) eqn:R.
-      * destruct P as [P|[Pc Po]]; [congruence|].
-        apply (K_set s s' x f v HK M (fun _ _ => opp_typed_noopp x f Po) (exec_set_state m s x f v p s' c2 HE)).
-        intros a h Rh _. rewrite (proj1 OC). apply upd_other. apply cell_neq_feat. exact (nonref_neq h f Rh R).
-      * exact (K_only_cell_attr s s' x f _ HK R OC CW).
-    + destruct (add_inverts m s x f v idx c1 s' c2 Cv (K_cell_wt_attr s x f HK Cv) HC HE) as (i' & _ & I & OC & CW).
-      split; [exact I | exact (K_only_cell_attr s s' x f _ HK (proj2 Cv) OC CW)].
-    + destruct (remove_inverts m s x f v idx c1 s' c2 Cv (K_cell_wt_attr s x f HK Cv) HC HE) as (i & w & l2 & _ & I & OC & CW).
-      split; [exact I | exact (K_only_cell_attr s s' x f _ HK (proj2 Cv) OC CW)].
-    + destruct Cv as [A Hx].
-      destruct (move_inverts m s x f v from to c1 s' c2 A (K_cell_wt_attr s x f HK A) Hx HC HE)
-        as (fr & w & to' & l2 & _ & I & OC & CW).
-      split; [exact I | exact (K_only_cell_attr s s' x f _ HK (proj2 A) OC CW)].
-  - (* containment *)
-    destruct c as [x f v p|x f v idx|x f v idx|x f v from to| |]; try contradiction.
-    + destruct Cv as (Hc & M & Hcond). pose proof (wf_cont_ref m W f Hc) as R.
-      cbn [can_execute] in HC. apply pair_eq_inv in HC. destruct HC as [_ Hc1]. subst c1.
-      assert (Hu : forall y, v = VObj y -> unowned m s y) by (intros y Ey; exact (proj1 (Hcond y Ey))).
-      assert (Hot : forall y, v = VObj y -> opp_typed m x f) by (intros y Ey; exact (proj2 (Hcond y Ey))).
-      destruct (f_opp (fd m f)) as [g|] eqn:Ho.
-      * destruct (set_ce_undo_redo s f g x v p s' c2 HK Hc Ho M Hu HE) as (I & VS & _).
-        split; [exact I|]. apply (K_set s s' x f v HK M Hot (exec_set_state m s x f v p s' c2 HE)).
-        intros a h Rh _. rewrite VS. unfold SetV. cbv zeta.
-        pose proof (ce_pair_of_wf m f g W Hc Ho) as CP.
-        assert (N1 : forall b : oid, ((b, g) : cell) <> (a, h)).
-        { intros b. apply cell_neq_feat. exact (nonref_neq h g Rh (ce_ref_g m f g CP)). }
-        assert (N2 : ((x, f) : cell) <> (a, h)) by (apply cell_neq_feat; exact (nonref_neq h f Rh R)).
-        destruct (obj_of v); destruct (obj_of (single s (x, f))); rewrite ?(upd_other _ (_, g) (a, h)) by apply N1;
-          apply upd_other; exact N2.
-      * assert (CP : cont_plain m f) by (split; [exact R | split; assumption]).
-        destruct (set_cont_inverts m s x f v p s' c2 CP M (K_cell_wt_single s x f HK M) Hu) as (I & VS & _); [|exact HE|].
-        { intros q Eq. apply (child_facts_plain s x f q (proj1 HK) Hc). rewrite Eq. left. reflexivity. }
-        split; [exact I|]. apply (K_set s s' x f v HK M Hot (exec_set_state m s x f v p s' c2 HE)).
-        intros a h Rh _. rewrite VS. apply upd_other. apply cell_neq_feat. exact (nonref_neq h f Rh R).
-    + destruct Cv as (y & -> & Hc & M & Hu & Hot). pose proof (wf_cont_ref m W f Hc) as R.
-      destruct (exec_add_state m s x f _ idx c1 s' c2 HC HE) as (pos & Es).
-      destruct (f_opp (fd m f)) as [g|] eqn:Ho.
-      * destruct (add_ce_undo_redo s f g x y idx c1 s' c2 HK Hc Ho M Hu HC HE) as (i' & _ & I & (VS & _)).
-        split; [exact I|]. apply (K_add s s' x f pos _ HK M Hot Es).
-        pose proof (ce_pair_of_wf m f g W Hc Ho) as CP.
-        intros a h Rh _. rewrite VS.
-        rewrite upd_other by (apply cell_neq_feat; exact (nonref_neq h f Rh R)).
-        apply upd_other. apply cell_neq_feat. exact (nonref_neq h g Rh (ce_ref_g m f g CP)).
-      * assert (CP : cont_plain m f) by (split; [exact R | split; assumption]).
-        destruct (add_cont_inverts m s x f y idx c1 s' c2 CP M Hu HC HE) as (i' & _ & I & (VS & _)).
-        split; [exact I|]. apply (K_add s s' x f pos _ HK M Hot Es).
-        intros a h Rh _. rewrite VS. apply upd_other. apply cell_neq_feat. exact (nonref_neq h f Rh R).
-    + destruct Cv as (Hc & M). pose proof (wf_cont_ref m W f Hc) as R.
-      destruct (exec_remove_state m s x f v idx c1 s' c2 HC HE) as (i0 & Es).
-      destruct (f_opp (fd m f)) as [g|] eqn:Ho.
-      * destruct (remove_ce_undo_redo s f g x v idx c1 s' c2 HK Hc Ho M HC HE) as (i & y & l2 & _ & I & (VS & _)).
-        split; [exact I|]. apply (K_pop s s' x f i0 HK M Es).
-        pose proof (ce_pair_of_wf m f g W Hc Ho) as CP.
-        intros a h Rh _. rewrite VS.
-        rewrite upd_other by (apply cell_neq_feat; exact (nonref_neq h f Rh R)).
-        apply upd_other. apply cell_neq_feat. exact (nonref_neq h g Rh (ce_ref_g m f g CP)).
-      * assert (CP : cont_plain m f) by (split; [exact R | split; assumption]).
-        pose proof HK as (HW & HT & _).
-        assert (Hobj : forall w, In w (vals s (x, f)) -> exists y, w = VObj y) by (intros w; apply many_ref_objs; assumption).
-        destruct (remove_cont_inverts m s x f v idx c1 s' c2 CP M) as (i & y & l2 & _ & I & (VS & _)); try assumption.
-        { unfold cell_wt. rewrite M. split; [intros w Hw; exact (check_elem_of_typed s x f w HT M Hw)|].
-          intros _. apply nodupv_of_objs; [exact Hobj|]. apply (proj2 (wf_shape m s HW x f)). right. exact Hc. }
-        { intros w Hw. destruct (Hobj w Hw) as (y & ->). exists y. split; [reflexivity|].
-          exact (child_facts_plain s x f y HW Hc Hw). }
-        split; [exact I|]. apply (K_pop s s' x f i0 HK M Es).
-        intros a h Rh _. rewrite VS. apply upd_other. apply cell_neq_feat. exact (nonref_neq h f Rh R).
-Qed.
-
-(* a covered primitive command that raises leaves the model as it was *)
-Lemma covered3_raise s c c1 e s' c2 :
-  K m s -> covered3 s c ->
-  can_execute m s c = (Ok true, c1) -> execute m s c1 = ((Some e, s'), c2) -> s' = s.
-Proof.
-  intros HK Cv HC HE.
-  destruct c as [x f v p|x f v idx|x f v idx|x f v from to| |].
-  - cbn [can_execute] in HC. apply pair_eq_inv in HC. destruct HC as [_ Hc]. subst c1.
-    cbn [execute] in HE. apply pair_eq_inv in HE. destruct HE as [H1 _]. eapply set_full_raise; exact H1.
-  - cbn [can_execute] in HC. destruct (negb (base_can m x f)); [discriminate|].
-    destruct (negb (f_many (fd m f))); [discriminate|].
-    apply pair_eq_inv in HC. destruct HC as [_ Hc]. subst c1. cbn [execute] in HE.
-    destruct idx as [i|]; apply pair_eq_inv in HE; destruct HE as [H1 _]; eapply coll_add_raise; exact H1.
-  - cbn [can_execute] in HC. destruct (negb (base_can m x f)); [discriminate|].
-    destruct (negb (f_many (fd m f))); [discriminate|].
-    assert (EX : exists v1 idx1, c1 = CRemove x f v1 idx1).
-    { destruct idx as [i0|].
-      - destruct (py_get i0 (vals s (x, f))); apply pair_eq_inv in HC; destruct HC as [_ Hc]; subst c1; eauto.
-      - apply pair_eq_inv in HC; destruct HC as [_ Hc]; subst c1; eauto. }
-    destruct EX as (v1 & idx1 & Hc). subst c1. cbn [execute] in HE.
-    match type of HE with (match ?ri with _ => _ end) = _ => destruct ri as [i|e0] end.
-    + destruct (coll_pop_full m s (x, f) i) as [[[e1|] s1] w] eqn:EP;
-        apply pair_eq_inv in HE; destruct HE as [H1 _]; [|discriminate].
-      inversion H1; subst. eapply coll_pop_raise; exact EP.
-    + apply pair_eq_inv in HE. destruct HE as [H1 _]. inversion H1. reflexivity.
-  - destruct Cv as [Cv|[]]. simpl in Cv. destruct Cv as [A Hx].
-    assert (Wt : forall w, In w (vals s (x, f)) -> check_elem m f w = true).
-    { pose proof (K_cell_wt_attr s x f HK A) as CW. unfold cell_wt in CW. rewrite (proj1 A) in CW. exact (proj1 CW). }
-    destruct A as [M R].
-    cbn [can_execute] in HC.
-    destruct (negb (base_can m x f)); [discriminate|]. rewrite M in HC. cbn [negb] in HC.
-    assert (EX : exists v1 fr0, c1 = CMove x f v1 fr0 to).
-    { destruct (is_none v).
-      - destruct from as [i0|]; [|apply pair_eq_inv in HC; destruct HC; discriminate].
-        destruct (py_get i0 (vals s (x, f))); apply pair_eq_inv in HC; destruct HC as [_ Hc]; subst c1; eauto.
-      - destruct from as [i0|].
-        + apply pair_eq_inv in HC; destruct HC as [_ Hc]; subst c1; eauto.
-        + destruct (index_of veqb v (vals s (x, f))); apply pair_eq_inv in HC; destruct HC as [_ Hc]; subst c1; eauto. }
-    destruct EX as (v1 & fr0 & Hc). subst c1. cbn [execute] in HE. unfold do_move in HE.
-    match type of HE with (match coll_pop_full m s (x, f) ?z with _ => _ end) = _ => set (fr := z) in * end.
-    destruct (coll_pop_full m s (x, f) fr) as [[[e1|] s1] w] eqn:EP.
-    + apply pair_eq_inv in HE. destruct HE as [H1 _]. inversion H1; subst. eapply coll_pop_raise; exact EP.
-    + exfalso. destruct (coll_pop_attr_inv m s x f fr s1 w R EP) as (w' & l1 & Pp & Ew). subst w.
-      apply pair_eq_inv in HE. destruct HE as [H1 _].
-      assert (Hin : In w' (vals s (x, f))).
-      { unfold py_pop in Pp. destruct (norm_index (zlen (vals s (x, f))) fr) as [k|]; [|discriminate].
-        destruct (nth_error (vals s (x, f)) (Z.to_nat k)) as [y|] eqn:N; [|discriminate].
-        inversion Pp; subst. eapply nth_error_In; exact N. }
-      match type of H1 with coll_add_full _ _ _ ?pos _ = _ =>
-        destruct (coll_add_attr_ok m s1 x f pos w' R (Wt w' Hin)) as (s2 & E2 & _) end.
-      rewrite E2 in H1. discriminate.
-  - destruct Cv as [[]|[]].
-  - destruct Cv as [[]|[]].
-Qed.
-
-Lemma covered3_raise_obs s c c1 e s' c2 :
-  K m s -> covered3 s c ->
-  can_execute m s c = (Ok true, c1) -> execute m s c1 = ((Some e, s'), c2) -> obs_eq s' s.
-Proof. intros A B C D. rewrite (covered3_raise s c c1 e s' c2 A B C D). apply obs_eq_refl. Qed.
-
-(* ---------- the covered commands: covered3 closed under Compound ---------- *)
-Definition covered4 : state -> cmd -> Prop := okC m covered3.
-
-Lemma covered4_exec s c c1 s' c2 :
-  K m s -> covered4 s c -> can_execute m s c = (Ok true, c1) -> execute m s c1 = ((None, s'), c2) ->
-  inverts m c2 s s' /\ K m s'.
-Proof. exact (okC_exec m (K m) covered3 covered3_exec covered3_raise_obs s c c1 s' c2). Qed.
-
-Lemma covered4_raise s c c1 e s' c2 :
-  K m s -> covered4 s c -> can_execute m s c = (Ok true, c1) -> execute m s c1 = ((Some e, s'), c2) -> obs_eq s' s.
-Proof. exact (okC_raise m (K m) covered3 covered3_exec covered3_raise_obs s c c1 e s' c2). Qed.
-
-(* ---------- the word-level theorems: containment, container ends, compounds ---------- *)
-Theorem cont_invariant_of_words s0 w :
-  K m s0 -> run_ok m covered4 (s0, [], []) w ->
-  ginv m (K m) (abs (st_run m (s0, empty_stack) w)).
-Proof. exact (g2_invariant_of_words m (K m) covered4 (K_obs_eq m) covered4_exec covered4_raise s0 w). Qed.
-
-Theorem cont_k_undo_k_redo s0 w k :
-  K m s0 -> run_ok m covered4 (s0, [], []) w ->
-  let ms := st_run m (s0, empty_stack) w in
-  (k <= length (done_of (snd ms)))%nat ->
-  let ms' := st_run m ms (repeat SUndo k ++ repeat SRedo k) in
-  obs_eq (fst ms') (fst ms) /\ snd ms' = snd ms.
-Proof. exact (g2_k_undo_k_redo_stack m (K m) covered4 (K_obs_eq m) covered4_exec covered4_raise s0 w k). Qed.
-
-End Lift.
-
-(* ---------- compounds over the reference kinds of Proofs/C06Refs.v (metamodels without containment) ---------- *)
-Section RefsCompound.
+(* instance 1: containment collection whose opposite is the container end *)
+Section MoveCE.
 Variable m : mm.
-Hypothesis Hnc : no_containment m.
-Hypothesis Hwf : wf_opp m.
-Hypothesis Hrt : ref_typed m.
+Variables f g : fid.
+Hypothesis HP : ce_pair m f g.
+Variable x : oid.
 
-Definition covered2C : state -> cmd -> Prop := okC m (covered2 m).
+Definition good_ce (t : state) (w : value) : Prop :=
+  exists y, w = VObj y /\ cont t y = Some (x, f) /\ not_root t y /\ vals t (y, g) = [VObj x] /\
+            check_elem m f (VObj y) = true.
 
-Lemma covered2_raise_obs s c c1 e s' c2 :
-  J m s -> covered2 m s c ->
-  can_execute m s c = (Ok true, c1) -> execute m s c1 = ((Some e, s'), c2) -> obs_eq s' s.
-Proof. intros A B C D. rewrite (covered2_raise m s c c1 e s' c2 A B C D). apply obs_eq_refl. Qed.
-
-Theorem refsC_invariant_of_words s0 w :
-  J m s0 -> run_ok m covered2C (s0, [], []) w ->
-  ginv m (J m) (abs (st_run m (s0, empty_stack) w)).
+Lemma good_ce_obs t t' w : obs_eq t' t -> good_ce t w -> good_ce t' w.
 Proof.
-  apply (g2_invariant_of_words m (J m) covered2C (J_obs_eq m)).
-  - exact (okC_exec m (J m) (covered2 m) (covered2_exec m Hnc Hwf Hrt) covered2_raise_obs).
-  - exact (okC_raise m (J m) (covered2 m) (covered2_exec m Hnc Hwf Hrt) covered2_raise_obs).
+  intros (A & B & C & D) (y & E & Hc & Hn & Hv & Ck). exists y. split; [exact E|].
+  split; [rewrite B; exact Hc|]. split; [|split; [rewrite A; exact Hv | exact Ck]].
+  unfold not_root in *. rewrite C. destruct (eres t y); [rewrite D; exact Hn | exact I].
 Qed.
 
-Theorem refsC_k_undo_k_redo s0 w k :
-  J m s0 -> run_ok m covered2C (s0, [], []) w ->
-  let ms := st_run m (s0, empty_stack) w in
-  (k <= length (done_of (snd ms)))%nat ->
-  let ms' := st_run m ms (repeat SUndo k ++ repeat SRedo k) in
-  obs_eq (fst ms') (fst ms) /\ snd ms' = snd ms.
+Lemma good_ce_only t t' l w : only_cell t t' (x, f) l -> good_ce t w -> good_ce t' w.
 Proof.
-  apply (g2_k_undo_k_redo_stack m (J m) covered2C (J_obs_eq m)).
-  - exact (okC_exec m (J m) (covered2 m) (covered2_exec m Hnc Hwf Hrt) covered2_raise_obs).
-  - exact (okC_raise m (J m) (covered2 m) (covered2_exec m Hnc Hwf Hrt) covered2_raise_obs).
-Qed.
-End RefsCompound.
-
-(* ====================================================================== *)
-(* Non-vacuity on SymLink's metamodel (kids <-> parent, pet, twin <-> twinof) *)
-(* ====================================================================== *)
-Lemma ex_link_premises :
-  wf_mm ex_mm_link /\ ref_typed ex_mm_link /\ K ex_mm_link (init_state ex_mm_link).
-Proof.
-  destruct ex_mm_link_wf as [W D]. split; [exact W|]. split; [|split; [|split]].
-  - intros f. fcase f; intros H; try discriminate; eexists; reflexivity.
-  - exact (WF_init ex_mm_link W D).
-  - apply typed_init. intros f. fcase f; intros; reflexivity.
-  - intros x f R M _. exfalso. revert R M. fcase f; intros; discriminate.
+  intros (V & Cn & Er & R) (y & E & Hc & Hn & Hv & Ck). exists y. split; [exact E|].
+  split; [rewrite Cn; exact Hc|]. split; [|split; [|exact Ck]].
+  - unfold not_root in *. rewrite Er. destruct (eres t y); [rewrite R; exact Hn | exact I].
+  - rewrite V. rewrite upd_other by exact (ce_cells m f g x y HP). exact Hv.
 Qed.
 
-Lemma opp_typed_link_0 : opp_typed ex_mm_link 0 0 /\ opp_typed ex_mm_link 1 0 /\ opp_typed ex_mm_link 2 3 /\
-                         opp_typed ex_mm_link 0 2.
-Proof. repeat split; intros g H; inversion H; reflexivity. Qed.
-
-(* 0.pet = 3; 0.pet = None; 0.kids.append(2); 2.twin = 3;
-   Compound(Remove(0.kids, 2), Add(1.kids, 2)) - the move of a child as EMF expresses it -; undo; undo; redo *)
-Definition ex_cont_word : list sop :=
-  [SExec (CSet 0 2 (VObj 3) VNone);
-   SExec (CSet 0 2 VNone VNone);
-   SExec (CAdd 0 0 (VObj 2) None);
-   SExec (CSet 2 3 (VObj 3) VNone);
-   SExec (CCompound [CRemove 0 0 (VObj 2) None; CAdd 1 0 (VObj 2) None]);
-   SUndo; SUndo; SRedo].
-
-Ltac unown := split; vm_compute; [reflexivity | exact I].
-
-Lemma ex_cont_word_ok :
-  run_ok ex_mm_link (covered4 ex_mm_link) (init_state ex_mm_link, [], []) ex_cont_word.
+Lemma pop_add_ce t i w l1 j :
+  py_pop i (vals t (x, f)) = Some (w, l1) -> good_ce t w -> (f_unique (fd m f) = true -> vmem w l1 = false) ->
+  exists t1, coll_pop_full m t (x, f) i = ((None, t1), Some w) /\ vals t1 (x, f) = l1 /\
+  exists t2, coll_add_full m t1 (x, f) (Some j) w = (None, t2) /\ only_cell t t2 (x, f) (py_insert j w l1).
 Proof.
-  destruct opp_typed_link_0 as (T00 & T10 & T23 & T02).
-  unfold ex_cont_word. cbn [run_ok gop_ok fst].
-  split. { right. split; [reflexivity|]. split; [reflexivity|]. intros y E. inversion E; subst y. split; [unown | exact T02]. }
-  split. { right. split; [reflexivity|]. split; [reflexivity|]. intros y E. discriminate. }
-  split. { right. exists 2. split; [reflexivity|]. split; [reflexivity|]. split; [reflexivity|]. split; [unown | exact T00]. }
-  split. { right. split; [reflexivity|]. split; [reflexivity|]. intros y E. inversion E; subst y. split; [unown | exact T23]. }
-  split.
-  { split; [|vm_compute; intros _; reflexivity].
-    split; [right; split; reflexivity|]. split; [vm_compute; reflexivity|]. intros _.
-    split; [right; exists 2; split; [reflexivity|]; split; [reflexivity|]; split; [reflexivity|]; split; [unown | exact T10]|].
-    split; [vm_compute; reflexivity|]. intros _. exact I. }
-  repeat split.
+  intros Pp (y & -> & Hc & Hn & Hv & Ck) Abs.
+  destruct (coll_pop_ce_ok m f g HP t x i y l1 Pp) as (t1 & E1 & CC1).
+  exists t1. split; [exact E1|]. split; [exact (cc2_vals_x _ _ _ _ _ _ _ _ _ CC1)|].
+  assert (N : ((x, f) : cell) <> (y, g)) by exact (ce_cells m f g x y HP).
+  assert (Hu : unowned m t1 y).
+  { assert (Cy : cont t1 y = None) by exact (cc2_cont _ _ _ _ _ _ _ _ _ CC1).
+    split; [exact Cy|]. unfold eresource_of. cbn [root_of]. rewrite Cy.
+    destruct CC1 as (_ & _ & Er & R). rewrite Er. unfold not_root in Hn.
+    destruct (eres t y); [rewrite R; exact Hn | exact I]. }
+  assert (Hs : obj_of (single t1 (y, g)) = None).
+  { unfold single. rewrite (cc2_vals_y _ _ _ _ _ _ _ _ _ N CC1). reflexivity. }
+  destruct (coll_add_ce_ok m f g HP t1 x (Some j) y Ck Hu Hs) as (t2 & E2 & CC2).
+  exists t2. split; [exact E2|].
+  rewrite (cc2_vals_x _ _ _ _ _ _ _ _ _ CC1), (raw_insert_absent _ _ _ _ Abs) in CC2.
+  destruct CC1 as (V1 & C1 & Er1 & R1). destruct CC2 as (V2 & C2 & Er2 & R2).
+  repeat split; intros.
+  - rewrite V2. unfold upd. destruct (cell_eqb_spec (x, f) k') as [_|Na]; [reflexivity|].
+    destruct (cell_eqb_spec (y, g) k') as [<-|Nb]; [symmetry; exact Hv|].
+    rewrite V1. rewrite !upd_other by assumption. reflexivity.
+  - rewrite C2. unfold updn. destruct (Nat.eqb_spec y o) as [<-|Ny]; [symmetry; exact Hc|].
+    rewrite C1. unfold updn. destruct (Nat.eqb_spec y o); [contradiction | reflexivity].
+  - rewrite Er2. apply Er1.
+  - rewrite R2. apply R1.
 Qed.
 
-Example ex_cont_word_result :
-  let ms := st_run ex_mm_link (init_state ex_mm_link, empty_stack) ex_cont_word in
-  vals (fst ms) (0, 0) = [VObj 2] /\ vals (fst ms) (1, 0) = [] /\ vals (fst ms) (2, 1) = [VObj 0] /\
-  cont (fst ms) 2 = Some (0, 0) /\ cont (fst ms) 3 = Some (2, 3) /\ vals (fst ms) (3, 4) = [VObj 2] /\
-  sidx (snd ms) = 3%Z /\ zlen (items (snd ms)) = 5%Z /\
-  let ms1 := st_run ex_mm_link ms [SRedo] in
-  vals (fst ms1) (0, 0) = [] /\ vals (fst ms1) (1, 0) = [VObj 2] /\ vals (fst ms1) (2, 1) = [VObj 1] /\
-  cont (fst ms1) 2 = Some (1, 0) /\
-  let ms2 := st_run ex_mm_link ms1 (repeat SUndo 5 ++ repeat SRedo 5) in
-  vals (fst ms2) (1, 0) = [VObj 2] /\ cont (fst ms2) 2 = Some (1, 0) /\ cont (fst ms2) 3 = Some (2, 3) /\
-  sidx (snd ms2) = 4%Z.
-Proof. vm_compute. repeat split; reflexivity. Qed.
+End MoveCE.
 
-(* ====================================================================== *)
-(* 1b. What the model's Compound.can_execute / can_undo ask                *)
-(* ====================================================================== *)
-Section CompoundAsks.
+(* instance 2: containment collection without opposite *)
+Section MoveCP.
 Variable m : mm.
+Variable f : fid.
+Hypothesis CP : cont_plain m f.
+Variable x : oid.
 
-(* can_execute: every member is asked in the state BEFORE the first member runs (and records there what
-   its can_execute records); the compound is accepted iff every member is *)
-Theorem compound_can_execute_spec s cs c1 :
-  can_execute m s (CCompound cs) = (Ok true, c1) <->
-  (c1 = CCompound (map (prep m s) cs) /\ Forall (fun c => fst (can_execute m s c) = Ok true) cs).
+Definition good_cp (t : state) (w : value) : Prop :=
+  exists y, w = VObj y /\ cont t y = Some (x, f) /\ not_root t y /\ check_elem m f (VObj y) = true.
+
+Lemma good_cp_obs t t' w : obs_eq t' t -> good_cp t w -> good_cp t' w.
 Proof.
-  rewrite can_execute_compound. split.
-  - destruct (ccane m s cs) as [b l1] eqn:E. intros H. inversion H; subst b c1.
-    split; [f_equal; exact (ccane_ok m s cs l1 E)|].
-    clear H. revert l1 E. induction cs as [|c r IH]; intros l1 E; [constructor|].
-    rewrite ccane_cons in E. destruct (can_execute m s c) as [[[|]|e] c'] eqn:Ec; try (inversion E; fail).
-    destruct (ccane m s r) as [b r'] eqn:Er. inversion E; subst b l1.
-    constructor; [rewrite Ec; reflexivity | exact (IH r' eq_refl)].
-  - intros [-> HF]. assert (E : ccane m s cs = (Ok true, map (prep m s) cs)); [|rewrite E; reflexivity].
-    induction HF as [|c r Hc _ IH]; [reflexivity|].
-    rewrite ccane_cons. unfold prep at 1. cbn [map]. destruct (can_execute m s c) as [b c'] eqn:Ec.
-    cbn [fst] in Hc. subst b. rewrite IH. reflexivity.
+  intros (A & B & C & D) (y & E & Hc & Hn & Ck). exists y. split; [exact E|].
+  split; [rewrite B; exact Hc|]. split; [|exact Ck].
+  unfold not_root in *. rewrite C. destruct (eres t y); [rewrite D; exact Hn | exact I].
 Qed.
 
-(* can_undo: every member is asked on the state the WHOLE compound left *)
-Theorem compound_can_undo_spec t cs :
-  can_undo m t (CCompound cs) = Ok true <-> Forall (fun c => can_undo m t c = Ok true) cs.
+Lemma good_cp_only t t' l w : only_cell t t' (x, f) l -> good_cp t w -> good_cp t' w.
 Proof.
-  rewrite can_undo_compound. induction cs as [|c r IH]; [split; [constructor | reflexivity]|].
-  rewrite ccanu_cons. split.
-  - destruct (can_undo m t c) as [[|]|e] eqn:Ec; intros H; try discriminate.
-    constructor; [exact Ec | apply IH; exact H].
-  - intros H. inversion H as [|? ? Hc Hr]; subst. rewrite Hc. apply IH. exact Hr.
+  intros (V & Cn & Er & R) (y & E & Hc & Hn & Ck). exists y. split; [exact E|].
+  split; [rewrite Cn; exact Hc|]. split; [|exact Ck].
+  unfold not_root in *. rewrite Er. destruct (eres t y); [rewrite R; exact Hn | exact I].
 Qed.
 
-End CompoundAsks.
-
-(* the can_undo premise of compound_inverts cannot be dropped (F-C06-compound-can-undo): on C06Proofs' ex_mm,
-   ns = [1], Compound(Add(ns, 7), Remove(ns, 7)): every member is covered and accepted in the state it meets,
-   the compound executes - and Add.can_undo, asked on the final state [1], answers False: CommandStack.undo
-   returns without undoing and leaves the compound on top *)
-Example compound_can_undo_needed_refuted :
-  let s0 := fold_left (next ex_mm) [OAppend 0 1 (VInt 1)] (init_state ex_mm) in
-  let c := CCompound [CAdd 0 1 (VInt 7) None; CRemove 0 1 (VInt 7) None] in
-  okM ex_mm (covered3 ex_mm) s0 s0 [CAdd 0 1 (VInt 7) None; CRemove 0 1 (VInt 7) None] /\
-  ~ cu_end ex_mm s0 c /\
-  (let ms := st_run ex_mm (s0, empty_stack) [SExec c] in
-   sidx (snd ms) = 0%Z /\ vals (fst ms) (0, 1) = [VInt 1] /\
-   fst (st_step ex_mm ms SUndo) = None /\ sidx (snd (snd (st_step ex_mm ms SUndo))) = 0%Z).
+Lemma pop_add_cp (Hm : f_many (fd m f) = true) t i w l1 j :
+  py_pop i (vals t (x, f)) = Some (w, l1) -> good_cp t w -> (f_unique (fd m f) = true -> vmem w l1 = false) ->
+  exists t1, coll_pop_full m t (x, f) i = ((None, t1), Some w) /\ vals t1 (x, f) = l1 /\
+  exists t2, coll_add_full m t1 (x, f) (Some j) w = (None, t2) /\ only_cell t t2 (x, f) (py_insert j w l1).
 Proof.
-  cbv zeta. split; [|split].
-  - split; [left; split; reflexivity|]. split; [vm_compute; reflexivity|]. intros _.
-    split; [left; split; reflexivity|]. split; [vm_compute; reflexivity|]. intros _. exact I.
-  - intros H. unfold cu_end in H. vm_compute in H. specialize (H eq_refl). discriminate.
-  - vm_compute. repeat split; reflexivity.
+  intros Pp (y & -> & Hc & Hn & Ck) Abs.
+  destruct (coll_pop_cont_ok m t x f i y l1 CP Pp) as (t1 & E1 & CC1).
+  exists t1. split; [exact E1|]. split; [exact (cc_vals _ _ _ _ _ _ CC1)|].
+  assert (Hu : unowned m t1 y).
+  { assert (Cy : cont t1 y = None) by exact (cc_cont _ _ _ _ _ _ CC1).
+    split; [exact Cy|]. unfold eresource_of. cbn [root_of]. rewrite Cy.
+    destruct CC1 as (_ & _ & Er & R). rewrite Er. unfold not_root in Hn.
+    destruct (eres t y); [rewrite R; exact Hn | exact I]. }
+  destruct (coll_add_cont_ok m t1 x f (Some j) y CP Hm Ck Hu) as (t2 & E2 & CC2).
+  exists t2. split; [exact E2|].
+  rewrite (cc_vals _ _ _ _ _ _ CC1), (raw_insert_absent _ _ _ _ Abs) in CC2.
+  destruct CC1 as (V1 & C1 & Er1 & R1). destruct CC2 as (V2 & C2 & Er2 & R2).
+  repeat split; intros.
+  - rewrite V2. unfold upd. destruct (cell_eqb_spec (x, f) k') as [_|Na]; [reflexivity|].
+    rewrite V1. rewrite upd_other by assumption. reflexivity.
+  - rewrite C2. unfold updn. destruct (Nat.eqb_spec y o) as [<-|Ny]; [symmetry; exact Hc|].
+    rewrite C1. unfold updn. destruct (Nat.eqb_spec y o); [contradiction | reflexivity].
+  - rewrite Er2. apply Er1.
+  - rewrite R2. apply R1.
 Qed.
 
-(* ====================================================================== *)
-(* 3. Delete                                                               *)
-(* ====================================================================== *)
-(* 3a. whatever is deleted (recursive, cross-referenced, ...) and whatever the snapshot holds, execute /
-   redo and undo of a Delete keep the global well-formedness WF: undo is a sequence of ordinary setter,
-   extend and insert calls *)
-Section DeleteWF.
-Variable m : mm.
-Hypothesis W : wf_mm m.
+End MoveCP.
 
-Lemma WF_seq o (g : state -> outcome) :
-  WF m (snd o) -> (forall s, WF m s -> WF m (snd (g s))) -> WF m (snd (seq_outcome o g)).
-Proof. destruct o as [[e|] s]; cbn [seq_outcome snd]; intros H Hg; [exact H | apply Hg; exact H]. Qed.
-
-Lemma WF_restore_refs_one (e : oid) l : forall s, WF m s -> WF m (snd (restore_refs_one m e l s)).
-Proof.
-  induction l as [|[f content] r IH]; intros s H; cbn [restore_refs_one]; [exact H|].
-  apply WF_seq; [|exact IH]. destruct (f_many (fd m f)) eqn:M.
-  - apply (WF_extend m W); assumption.
-  - apply (WF_set_full m W); assumption.
-Qed.
-
-Lemma WF_restore_refs l : forall s, WF m s -> WF m (snd (restore_refs m l s)).
-Proof.
-  induction l as [|[e rl] r IH]; intros s H; cbn [restore_refs]; [exact H|].
-  apply WF_seq; [apply WF_restore_refs_one; exact H | exact IH].
-Qed.
-
-Lemma WF_restore_invs_one (e : oid) l : forall s, WF m s -> WF m (snd (restore_invs_one m e l s)).
-Proof.
-  induction l as [|[i [a h]] r IH]; intros s H; cbn [restore_invs_one]; [exact H|].
-  apply WF_seq; [|exact IH]. cbn [snd]. destruct (f_many (fd m h)) eqn:M.
-  - apply (WF_coll_add_full m W); assumption.
-  - apply (WF_set_full m W); assumption.
-Qed.
-
-Lemma WF_restore_invs l : forall s, WF m s -> WF m (snd (restore_invs m l s)).
-Proof.
-  induction l as [|[e il] r IH]; intros s H; cbn [restore_invs]; [exact H|].
-  apply WF_seq; [apply WF_restore_invs_one; exact H | exact IH].
-Qed.
-
-Theorem delete_keeps_WF s (x : oid) r i :
-  WF m s ->
-  WF m (snd (fst (execute m s (CDelete x r i)))) /\ WF m (snd (fst (redo m s (CDelete x r i)))) /\
-  WF m (snd (fst (undo m s (CDelete x r i)))).
-Proof.
-  intros H. assert (D : WF m (snd (fst (do_delete m s x)))).
-  { unfold do_delete. destruct (snap_invs m s (delete_elements m s x)); cbn [fst snd]; [|exact H].
-    apply (OwnAll.WF_delete_obj m W). exact H. }
-  split; [exact D|]. split; [exact D|]. cbn [undo fst].
-  apply WF_seq; [apply WF_restore_refs; exact H | apply WF_restore_invs].
-Qed.
-
-End DeleteWF.
-
-(* 3b. Delete of a leaf child: kernel closed forms *)
+(* kernel closed forms for the container end itself (used for Set on the container end and, in part 3,
+   for Delete of a leaf child) *)
+(* x.g = None / x.g = p, and steps on empty slots *)
 Section LeafKernel.
 Variable m : mm.
 Variables f g : fid.
@@ -1736,3 +1294,1595 @@ Proof.
 Qed.
 
 End EmptySteps.
+
+(* --- Set on the container end g itself: x.g = p (x unowned, its container end empty) --- *)
+Lemma set_end_link_inverts m f g s (x p : oid) p0 s' c' :
+  ce_pair m f g -> vals s (x, g) = [VNone] -> unowned m s x ->
+  (f_many (fd m f) = false -> vals s (p, f) = [VNone]) -> ~ In (VObj x) (vals s (p, f)) ->
+  execute m s (CSet x g (VObj p) p0) = ((None, s'), c') ->
+  inverts m c' s s' /\ cc2 s s' p f (plusx m f x (vals s (p, f))) x g [VObj p] (Some (p, f)).
+Proof.
+  intros CP Hxg Hu Hfree Habs HE.
+  assert (Sg : single s (x, g) = VNone) by (unfold single; rewrite Hxg; reflexivity).
+  cbn [execute] in HE. apply pair_eq_inv in HE. destruct HE as [H1 H2]. rewrite Sg in H2.
+  assert (Ck : check_single m g (VObj p) = true).
+  { destruct (check_single m g (VObj p)) eqn:C; [reflexivity|]. rewrite (set_full_bad m s (x, g) _ C) in H1. discriminate. }
+  destruct (set_container_end m f g CP s x p Hxg Hu Ck Hfree (fun _ _ => Habs)) as (s1 & E1 & CC).
+  rewrite E1 in H1. inversion H1; subst s1. clear H1 E1. split; [|exact CC]. subst c'.
+  assert (N2 : ((p, f) : cell) <> (x, g)) by exact (ce_cells m f g p x CP).
+  assert (Back : lessx m f x (plusx m f x (vals s (p, f))) = vals s (p, f)).
+  { unfold lessx, plusx. destruct (f_many (fd m f)) eqn:M; [apply rr_app_last; exact Habs | symmetry; exact (Hfree eq_refl)]. }
+  split.
+  - intros t Ht. pose proof Ht as (Vt & _). split; [reflexivity|]. cbn [undo].
+    assert (Vpf : vals t (p, f) = plusx m f x (vals s (p, f))) by (rewrite Vt; exact (cc2_vals_x _ _ _ _ _ _ _ _ _ CC)).
+    destruct (unset_container_end m f g CP t x p) as (t' & Et & CCt).
+    + rewrite Vt. exact (cc2_vals_y _ _ _ _ _ _ _ _ _ N2 CC).
+    + rewrite Vpf. unfold plusx. destruct (f_many (fd m f)); [apply in_or_app; right|]; left; reflexivity.
+    + intros M. rewrite Vpf. unfold plusx. rewrite M. reflexivity.
+    + exists t'. rewrite Et. split; [reflexivity|].
+      apply (cc2_back s s' t t' p f _ x g _ _ CC Ht). rewrite Hxg, (proj1 Hu). rewrite Vpf, Back in CCt. exact CCt.
+  - intros t Ht. pose proof Ht as (Vt & _). cbn [redo].
+    destruct (set_container_end m f g CP t x p) as (t' & Et & CCt).
+    + rewrite Vt. exact Hxg.
+    + exact (unowned_obs_eq m s t x (obs_eq_sym _ _ Ht) Hu).
+    + exact Ck.
+    + intros M. rewrite Vt. exact (Hfree M).
+    + intros _ _. rewrite Vt. exact Habs.
+    + exists t'. rewrite Et. split; [reflexivity|].
+      apply (cc2_again s s' t t' p f _ x g _ _ CC Ht). rewrite (Vt (p, f)) in CCt. exact CCt.
+Qed.
+
+(* --- x.g = None: x leaves its container p; exact when x was the last element of p.f (or p.f is single-valued):
+       undo goes through the setter of g, which appends (F-C06-relink-order) --- *)
+Lemma set_end_unlink_inverts m f g s (x p : oid) p0 s' c' :
+  ce_pair m f g -> vals s (x, g) = [VObj p] -> In (VObj x) (vals s (p, f)) ->
+  (f_many (fd m f) = false -> vals s (p, f) = [VObj x]) -> nodup_objs (vals s (p, f)) ->
+  cont s x = Some (p, f) -> not_root s x -> check_single m g (VObj p) = true ->
+  (f_many (fd m f) = true -> lastv (VObj x) (vals s (p, f))) ->
+  execute m s (CSet x g VNone p0) = ((None, s'), c') ->
+  inverts m c' s s' /\ cc2 s s' p f (lessx m f x (vals s (p, f))) x g [VNone] None.
+Proof.
+  intros CP Hxg Hin Hsing ND Hcx Hnr Ck Hlast HE.
+  assert (Sg : single s (x, g) = VObj p) by (unfold single; rewrite Hxg; reflexivity).
+  cbn [execute] in HE. apply pair_eq_inv in HE. destruct HE as [H1 H2]. rewrite Sg in H2.
+  destruct (unset_container_end m f g CP s x p Hxg Hin Hsing) as (s1 & E1 & CC).
+  rewrite E1 in H1. inversion H1; subst s1. clear H1 E1. split; [|exact CC]. subst c'.
+  assert (N2 : ((p, f) : cell) <> (x, g)) by exact (ce_cells m f g p x CP).
+  assert (Back : plusx m f x (lessx m f x (vals s (p, f))) = vals s (p, f)).
+  { unfold plusx, lessx. destruct (f_many (fd m f)) eqn:M; [|symmetry; exact (Hsing eq_refl)].
+    destruct (Hlast eq_refl) as (l0 & El). rewrite El.
+    rewrite rr_app_last; [reflexivity|]. apply nodup_objs_app_last. rewrite <- El. exact ND. }
+  split.
+  - intros t Ht. pose proof Ht as (Vt & Ct & Et & Rt). split; [reflexivity|]. cbn [undo].
+    assert (Vpf : vals t (p, f) = lessx m f x (vals s (p, f))) by (rewrite Vt; exact (cc2_vals_x _ _ _ _ _ _ _ _ _ CC)).
+    destruct (set_container_end m f g CP t x p) as (t' & Et' & CCt).
+    + rewrite Vt. exact (cc2_vals_y _ _ _ _ _ _ _ _ _ N2 CC).
+    + assert (Cx : cont t x = None) by (rewrite Ct; exact (cc2_cont _ _ _ _ _ _ _ _ _ CC)).
+      split; [exact Cx|]. unfold eresource_of. cbn [root_of]. rewrite Cx.
+      destruct CC as (_ & _ & Es & Rs). rewrite Et, Es. unfold not_root in Hnr.
+      destruct (eres s x) as [r|]; [rewrite Rt, Rs; exact Hnr | exact I].
+    + exact Ck.
+    + intros M. rewrite Vpf. unfold lessx. rewrite M. reflexivity.
+    + intros M _. rewrite Vpf. unfold lessx. rewrite M. intros Hi.
+      exact (C07Full.raw_remove_obj_neq _ x x ND Hi eq_refl).
+    + exists t'. rewrite Et'. split; [reflexivity|].
+      apply (cc2_back s s' t t' p f _ x g _ _ CC Ht). rewrite Hxg, Hcx. rewrite Vpf, Back in CCt. exact CCt.
+  - intros t Ht. pose proof Ht as (Vt & _). cbn [redo].
+    destruct (unset_container_end m f g CP t x p) as (t' & Et' & CCt).
+    + rewrite Vt. exact Hxg.
+    + rewrite Vt. exact Hin.
+    + intros M. rewrite Vt. exact (Hsing M).
+    + exists t'. rewrite Et'. split; [reflexivity|].
+      apply (cc2_again s s' t t' p f _ x g _ _ CC Ht). rewrite (Vt (p, f)) in CCt. exact CCt.
+Qed.
+
+(* --- x.g = None when it is None already: nothing observable happens, in either direction --- *)
+Lemma set_none_none_inverts m s (x : oid) (h : fid) p0 s' c' :
+  vals s (x, h) = [VNone] -> execute m s (CSet x h VNone p0) = ((None, s'), c') ->
+  inverts m c' s s' /\ obs_eq s' s.
+Proof.
+  intros Hv HE. assert (Sg : single s (x, h) = VNone) by (unfold single; rewrite Hv; reflexivity).
+  cbn [execute] in HE. apply pair_eq_inv in HE. destruct HE as [H1 H2]. rewrite Sg in H2.
+  destruct (set_full_none_noop m s x h Hv) as (s1 & E1 & O1). rewrite E1 in H1. inversion H1; subst s1.
+  split; [|exact O1]. subst c'. split.
+  - intros t Ht. split; [reflexivity|]. cbn [undo].
+    destruct (set_full_none_noop m t x h) as (t' & Et & Ot); [rewrite (proj1 Ht), (proj1 O1); exact Hv|].
+    exists t'. rewrite Et. split; [reflexivity|]. eapply obs_eq_trans; [exact Ot|]. eapply obs_eq_trans; eauto.
+  - intros t Ht. cbn [redo].
+    destruct (set_full_none_noop m t x h) as (t' & Et & Ot); [rewrite (proj1 Ht); exact Hv|].
+    exists t'. rewrite Et. split; [reflexivity|]. eapply obs_eq_trans; [exact Ot|]. eapply obs_eq_trans; [exact Ht|].
+    apply obs_eq_sym. exact O1.
+Qed.
+
+(* ====================================================================== *)
+(* 2b. The invariant for metamodels WITH containment and the lift to words *)
+(* ====================================================================== *)
+(* WF (symmetry, shape, ownership, resources; Proofs/WFBase.v, preserved by every kernel operation:
+   Proofs/OwnAll.v) + typed slots (C03) + duplicate-free unique attribute collections (C04) *)
+Definition K (m : mm) (s : state) : Prop := WF m s /\ typed m s /\ uniq_attr m s.
+
+Lemma K_obs_eq m s t : obs_eq s t -> K m s -> K m t.
+Proof.
+  intros (A & B & C & D) (HW & HT & HU). split; [|split].
+  - apply (WF_ext m s t); try (intros; symmetry; auto); exact HW.
+  - apply (typed_ext m s t); [intros k; symmetry; apply A | exact HT].
+  - intros x f H1 H2 H3. rewrite <- A. apply HU; assumption.
+Qed.
+
+(* where a successful primitive command leaves the model, as a kernel procedure *)
+Lemma exec_set_state m s x f v p s' c' :
+  execute m s (CSet x f v p) = ((None, s'), c') -> s' = snd (set_full m s (x, f) v).
+Proof. cbn [execute]. intros H. apply pair_eq_inv in H. destruct H as [H _]. rewrite H. reflexivity. Qed.
+
+Lemma exec_add_state m s x f v idx c1 s' c2 :
+  can_execute m s (CAdd x f v idx) = (Ok true, c1) -> execute m s c1 = ((None, s'), c2) ->
+  exists pos, s' = snd (coll_add_full m s (x, f) pos v).
+Proof.
+  intros HC HE. cbn [can_execute] in HC. destruct (negb (base_can m x f)); [discriminate|].
+  destruct (negb (f_many (fd m f))); [discriminate|]. apply pair_eq_inv in HC. destruct HC as [_ <-].
+  cbn [execute] in HE. destruct idx as [i|]; apply pair_eq_inv in HE; destruct HE as [H _];
+    eexists; rewrite H; reflexivity.
+Qed.
+
+Lemma exec_remove_state m s x f v idx c1 s' c2 :
+  can_execute m s (CRemove x f v idx) = (Ok true, c1) -> execute m s c1 = ((None, s'), c2) ->
+  exists i, s' = snd (fst (coll_pop_full m s (x, f) i)).
+Proof.
+  intros HC HE. cbn [can_execute] in HC. destruct (negb (base_can m x f)); [discriminate|].
+  destruct (negb (f_many (fd m f))); [discriminate|].
+  assert (EX : exists v1 idx1, c1 = CRemove x f v1 idx1).
+  { destruct idx as [i0|].
+    - destruct (py_get i0 (vals s (x, f))); apply pair_eq_inv in HC; destruct HC as [_ Hc]; subst c1; eauto.
+    - apply pair_eq_inv in HC; destruct HC as [_ Hc]; subst c1; eauto. }
+  destruct EX as (v1 & idx1 & ->). cbn [execute] in HE.
+  match type of HE with (match ?ri with _ => _ end) = _ => destruct ri as [i|e0] end.
+  - exists i. destruct (coll_pop_full m s (x, f) i) as [o w]. apply pair_eq_inv in HE. destruct HE as [H _].
+    rewrite H. reflexivity.
+  - apply pair_eq_inv in HE. destruct HE as [H _]. discriminate.
+Qed.
+
+Lemma exec_move_state m s x f v from to c1 s' c2 :
+  can_execute m s (CMove x f v from to) = (Ok true, c1) -> execute m s c1 = ((None, s'), c2) ->
+  exists i j w, s' = snd (coll_add_full m (snd (fst (coll_pop_full m s (x, f) i))) (x, f) (Some j) w) /\
+                In w (vals s (x, f)).
+Proof.
+  intros HC HE. cbn [can_execute] in HC. destruct (negb (base_can m x f)); [discriminate|].
+  destruct (negb (f_many (fd m f))); [discriminate|].
+  assert (EX : exists v1 fr0, c1 = CMove x f v1 fr0 to).
+  { destruct (is_none v).
+    - destruct from as [i0|]; [|apply pair_eq_inv in HC; destruct HC; discriminate].
+      destruct (py_get i0 (vals s (x, f))); apply pair_eq_inv in HC; destruct HC as [_ Hc]; subst c1; eauto.
+    - destruct from as [i0|].
+      + apply pair_eq_inv in HC; destruct HC as [_ Hc]; subst c1; eauto.
+      + destruct (index_of veqb v (vals s (x, f))); apply pair_eq_inv in HC; destruct HC as [_ Hc]; subst c1; eauto. }
+  destruct EX as (v1 & fr0 & ->). cbn [execute] in HE. unfold do_move in HE.
+  match type of HE with (match coll_pop_full m s (x, f) ?z with _ => _ end) = _ => set (fr := z) in * end.
+  destruct (coll_pop_full m s (x, f) fr) as [[[e1|] s1] w] eqn:EP;
+    [apply pair_eq_inv in HE; destruct HE; discriminate|].
+  destruct (pop_full_inv m s x f fr s1 w EP) as (w' & l1 & Pp & ->).
+  apply pair_eq_inv in HE. destruct HE as [H1 _].
+  eexists fr, _, w'. split; [|exact (py_pop_In _ _ _ _ Pp)].
+  rewrite EP. cbn [fst snd]. rewrite H1. reflexivity.
+Qed.
+
+Section Lift.
+Variable m : mm.
+Hypothesis W : wf_mm m.
+Hypothesis Hrt : ref_typed m.
+
+Lemma K_cell_wt_single s (x : oid) (f : fid) : K m s -> f_many (fd m f) = false -> cell_wt m f (vals s (x, f)).
+Proof.
+  intros (HW & HT & _) M. unfold cell_wt. rewrite M.
+  destruct (proj1 (wf_shape m s HW x f) M) as (v & Hv). exists v. split; [exact Hv|].
+  pose proof (HT (x, f) v) as Ho. rewrite Hv in Ho. specialize (Ho (or_introl eq_refl)).
+  unfold okv in Ho. cbn [snd] in Ho. rewrite M in Ho. exact Ho.
+Qed.
+
+Lemma K_cell_wt_attr s (x : oid) (f : fid) : K m s -> attr_many m f -> cell_wt m f (vals s (x, f)).
+Proof.
+  intros (_ & HT & HU) [M R]. unfold cell_wt. rewrite M. split.
+  - intros v Hv. pose proof (HT (x, f) v Hv) as Ho. unfold okv in Ho. cbn [snd] in Ho. rewrite M in Ho. exact Ho.
+  - intros U. apply HU; assumption.
+Qed.
+
+(* a slot of a reference holds objects or None *)
+Lemma ref_slot_cases s (a : oid) (f : fid) w :
+  typed m s -> f_isref (fd m f) = true -> In w (vals s (a, f)) -> w = VNone \/ exists o, w = VObj o.
+Proof.
+  intros HT R Hw. pose proof (HT (a, f) w Hw) as Ho. unfold okv in Ho. cbn [snd] in Ho.
+  destruct (Hrt f R) as (c & Ec). unfold check_elem, check_single in Ho. rewrite R, Ec in Ho.
+  destruct w; [left; reflexivity | right; eexists; reflexivity | | | | | ];
+    destruct (f_many (fd m f)); simpl in Ho; discriminate.
+Qed.
+
+Lemma check_elem_of_typed s (a : oid) (f : fid) w :
+  typed m s -> f_many (fd m f) = true -> In w (vals s (a, f)) -> check_elem m f w = true.
+Proof. intros HT M Hw. pose proof (HT (a, f) w Hw) as Ho. unfold okv in Ho. cbn [snd] in Ho. rewrite M in Ho. exact Ho. Qed.
+
+(* a child listed in a containment slot: container pointer, no root of a resource *)
+Lemma child_facts_plain s (x : oid) (f : fid) (y : oid) :
+  WF m s -> f_cont (fd m f) = true -> In (VObj y) (vals s (x, f)) -> cont s y = Some (x, f) /\ not_root s y.
+Proof.
+  intros HW Hc Hin. assert (Cy : cont s y = Some (x, f)) by (apply (wf_own m s HW); split; assumption).
+  split; [exact Cy|]. unfold not_root. destruct (eres s y) as [r|] eqn:Er; [|exact I].
+  exfalso. apply (proj2 (wf_res m s HW)) in Er. apply (wf_roots m s HW) in Er. congruence.
+Qed.
+
+(* ... and with a container end: the child points back *)
+Lemma child_facts s (x : oid) (f g : fid) (y : oid) :
+  WF m s -> ce_pair m f g -> In (VObj y) (vals s (x, f)) ->
+  cont s y = Some (x, f) /\ not_root s y /\ vals s (y, g) = [VObj x].
+Proof.
+  intros HW CP Hin. destruct (child_facts_plain s x f y HW (ce_cont_f m f g CP) Hin) as [A B].
+  split; [exact A|]. split; [exact B|].
+  destruct (proj1 (wf_shape m s HW y g) (ce_single_g m f g CP)) as (v & Hv).
+  pose proof (proj1 (wf_sym m s HW f g (ce_opp_f m f g CP) x y) Hin) as Hb. unfold R in Hb. rewrite Hv in Hb.
+  destruct Hb as [<-|[]]. exact Hv.
+Qed.
+
+(* an object without container has an empty container end *)
+Lemma unowned_g_none s (f g : fid) (y : oid) :
+  K m s -> ce_pair m f g -> cont s y = None -> vals s (y, g) = [VNone].
+Proof.
+  intros (HW & HT & _) CP Cy.
+  destruct (proj1 (wf_shape m s HW y g) (ce_single_g m f g CP)) as (v & Hv). rewrite Hv. f_equal.
+  destruct (ref_slot_cases s y g v HT (ce_ref_g m f g CP)) as [E|(c & E)]; [rewrite Hv; left; reflexivity | exact E |].
+  exfalso. subst v.
+  assert (Hin : In (VObj y) (vals s (c, f))).
+  { apply (wf_sym m s HW f g (ce_opp_f m f g CP) c y). unfold R. rewrite Hv. left. reflexivity. }
+  destruct (child_facts_plain s c f y HW (ce_cont_f m f g CP) Hin) as [A _]. congruence.
+Qed.
+
+Lemma uniq_attr_refcells s s' :
+  (forall (a : oid) (h : fid), f_isref (fd m h) = false -> f_many (fd m h) = true -> vals s' (a, h) = vals s (a, h)) ->
+  uniq_attr m s -> uniq_attr m s'.
+Proof. intros Fr HU a h H1 H2 H3. rewrite Fr by assumption. apply HU; assumption. Qed.
+
+(* ---------- the three containment-with-opposite theorems from the invariant ---------- *)
+Theorem add_ce_undo_redo s (f g : fid) (x y : oid) idx c1 s' c' :
+  K m s -> f_cont (fd m f) = true -> f_opp (fd m f) = Some g -> f_many (fd m f) = true ->
+  unowned m s y ->
+  can_execute m s (CAdd x f (VObj y) idx) = (Ok true, c1) ->
+  execute m s c1 = ((None, s'), c') ->
+  exists i', c' = CAdd x f (VObj y) (Some i') /\
+             inverts m c' s s' /\
+             cc2 s s' x f (py_insert i' (VObj y) (vals s (x, f))) y g [VObj x] (Some (x, f)).
+Proof.
+  intros HK Hc Ho M Hu HC HE. pose proof (ce_pair_of_wf m f g W Hc Ho) as CP.
+  exact (add_ce_inverts m f g s x y idx c1 s' c' CP M Hu (unowned_g_none s f g y HK CP (proj1 Hu)) HC HE).
+Qed.
+
+Lemma many_ref_objs s (x : oid) (f : fid) w :
+  typed m s -> f_isref (fd m f) = true -> f_many (fd m f) = true -> In w (vals s (x, f)) -> exists y, w = VObj y.
+Proof.
+  intros HT R M Hw. destruct (ref_slot_cases s x f w HT R Hw) as [E|E]; [|exact E].
+  exfalso. subst w. pose proof (check_elem_of_typed s x f VNone HT M Hw) as C. unfold check_elem in C. rewrite R in C. discriminate.
+Qed.
+
+Theorem remove_ce_undo_redo s (f g : fid) (x : oid) v idx c1 s' c' :
+  K m s -> f_cont (fd m f) = true -> f_opp (fd m f) = Some g -> f_many (fd m f) = true ->
+  can_execute m s (CRemove x f v idx) = (Ok true, c1) ->
+  execute m s c1 = ((None, s'), c') ->
+  exists i y l2, c' = CRemove x f (VObj y) (Some i) /\
+                 inverts m c' s s' /\ cc2 s s' x f l2 y g [VNone] None.
+Proof.
+  intros HK Hc Ho M HC HE. pose proof (ce_pair_of_wf m f g W Hc Ho) as CP. destruct HK as (HW & HT & HU).
+  apply (remove_ce_inverts m f g s x v idx c1 s' c' CP M); try assumption.
+  - apply (proj2 (wf_shape m s HW x f)). right. exact Hc.
+  - intros w Hw. destruct (many_ref_objs s x f w HT (ce_ref_f m f g CP) M Hw) as (y & ->).
+    destruct (child_facts s x f g y HW CP Hw) as (A & B & C).
+    exists y. repeat split; try assumption. exact (check_elem_of_typed s x f _ HT M Hw).
+Qed.
+
+(* Move inside a containment collection, with or without container end: only the order of the slot changes *)
+Theorem move_cont_undo_redo s (f : fid) (x : oid) v from to c1 s' c' :
+  K m s -> f_cont (fd m f) = true -> f_many (fd m f) = true ->
+  (is_none v = true \/ from = None) ->
+  can_execute m s (CMove x f v from to) = (Ok true, c1) ->
+  execute m s c1 = ((None, s'), c') ->
+  exists fr w to' l2, c' = CMove x f w (Some fr) to' /\ inverts m c' s s' /\ only_cell s s' (x, f) l2.
+Proof.
+  intros HK Hc M Hx HC HE. pose proof HK as (HW & HT & _). pose proof (wf_cont_ref m W f Hc) as R.
+  assert (Hobj : forall w, In w (vals s (x, f)) -> exists y, w = VObj y) by (intros w; apply many_ref_objs; assumption).
+  assert (Habs : forall i w l1, py_pop i (vals s (x, f)) = Some (w, l1) -> f_unique (fd m f) = true -> vmem w l1 = false).
+  { intros i w l1 Pp _. destruct (C01Full.py_pop_nth i _ _ _ Pp) as (n & Hn & ->).
+    destruct (Hobj w (nth_error_In _ _ Hn)) as (y & ->). apply vmem_obj_false.
+    apply nodup_objs_removed; [|exact Hn]. apply (proj2 (wf_shape m s HW x f)). right. exact Hc. }
+  destruct (f_opp (fd m f)) as [g|] eqn:Ho.
+  - pose proof (ce_pair_of_wf m f g W Hc Ho) as CP.
+    apply (move_gen_inverts m x f (good_ce m f g x) M (good_ce_obs m f g x) (good_ce_only m f g CP x)
+                            (pop_add_ce m f g CP x) s v from to c1 s' c'); try assumption.
+    intros w Hw. destruct (Hobj w Hw) as (y & ->). destruct (child_facts s x f g y HW CP Hw) as (A & B & C).
+    exists y. repeat split; try assumption. exact (check_elem_of_typed s x f _ HT M Hw).
+  - assert (CP : cont_plain m f) by (split; [exact R | split; assumption]).
+    apply (move_gen_inverts m x f (good_cp m f x) M (good_cp_obs m f x) (good_cp_only m f x)
+                            (pop_add_cp m f CP x M) s v from to c1 s' c'); try assumption.
+    intros w Hw. destruct (Hobj w Hw) as (y & ->). destruct (child_facts_plain s x f y HW Hc Hw) as (A & B).
+    exists y. repeat split; try assumption. exact (check_elem_of_typed s x f _ HT M Hw).
+Qed.
+
+Theorem set_ce_undo_redo s (f g : fid) (x : oid) v p0 s' c' :
+  K m s -> f_cont (fd m f) = true -> f_opp (fd m f) = Some g -> f_many (fd m f) = false ->
+  (forall y, v = VObj y -> unowned m s y) ->
+  execute m s (CSet x f v p0) = ((None, s'), c') ->
+  inverts m c' s s' /\
+  (forall k, vals s' k = SetV (vals s) x f g v (single s (x, f)) k) /\
+  (forall o, cont s' o = cont_after (cont s) x f v (single s (x, f)) o) /\
+  (forall o, eres s' o = eres s o) /\ (forall r, rcont s' r = rcont s r).
+Proof.
+  intros HK Hc Ho M Hu HE. pose proof (ce_pair_of_wf m f g W Hc Ho) as CP.
+  apply (set_ce_inverts m f g s x v p0 s' c' CP M (K_cell_wt_single s x f HK M)); try assumption.
+  - intros y Ey. split; [exact (Hu y Ey) | exact (unowned_g_none s f g y HK CP (proj1 (Hu y Ey)))].
+  - intros p Ep. apply (child_facts s x f g p (proj1 HK) CP). rewrite Ep. left. reflexivity.
+Qed.
+
+(* ---------- K after the primitive commands ---------- *)
+Lemma K_only_cell_attr s s' (x : oid) (f : fid) l1 :
+  K m s -> f_isref (fd m f) = false -> only_cell s s' (x, f) l1 -> cell_wt m f l1 -> K m s'.
+Proof.
+  intros (HW & HT & HU) R (V & C & E & Rc) CW.
+  assert (Fr : forall k, k <> (x, f) -> vals s' k = vals s k).
+  { intros k Nk. rewrite V. apply upd_other. intros E0; apply Nk; symmetry; exact E0. }
+  assert (Eo : vals s' (x, f) = l1) by (rewrite V; apply upd_same).
+  split; [|split].
+  - apply (C07Full.WF_attr_write m W s s' x f l1 HW R); try assumption.
+    intros M. unfold cell_wt in CW. rewrite M in CW. destruct CW as (v & Ev & _). exists v. exact Ev.
+  - intros k v Hv. destruct (cell_eqb_spec k (x, f)) as [E0|N].
+    + subst k. rewrite Eo in Hv. unfold okv. cbn [snd]. unfold cell_wt in CW.
+      destruct (f_many (fd m f)); [apply (proj1 CW); exact Hv|].
+      destruct CW as (w & Ew & Cw). rewrite Ew in Hv. destruct Hv as [<-|[]]. exact Cw.
+    + rewrite (Fr k N) in Hv. exact (HT k v Hv).
+  - intros a h H1 H2 H3. destruct (cell_eqb_spec (a, h) (x, f)) as [E0|N].
+    + inversion E0; subst a h. rewrite Eo. unfold cell_wt in CW. rewrite H2 in CW. apply (proj2 CW). exact H3.
+    + rewrite (Fr _ N). apply HU; assumption.
+Qed.
+
+Lemma K_set s s' (x : oid) (f : fid) v :
+  K m s -> f_many (fd m f) = false -> (forall y, v = VObj y -> opp_typed m x f) ->
+  s' = snd (set_full m s (x, f) v) ->
+  (forall (a : oid) (h : fid), f_isref (fd m h) = false -> f_many (fd m h) = true -> vals s' (a, h) = vals s (a, h)) ->
+  K m s'.
+Proof.
+  intros (HW & HT & HU) M Hot -> Fr. split; [|split].
+  - apply (WF_set_full m W); assumption.
+  - apply typed_set_full; assumption.
+  - exact (uniq_attr_refcells s _ Fr HU).
+Qed.
+
+Lemma K_add s s' (x : oid) (f : fid) pos v :
+  K m s -> f_many (fd m f) = true -> opp_typed m x f ->
+  s' = snd (coll_add_full m s (x, f) pos v) ->
+  (forall (a : oid) (h : fid), f_isref (fd m h) = false -> f_many (fd m h) = true -> vals s' (a, h) = vals s (a, h)) ->
+  K m s'.
+Proof.
+  intros (HW & HT & HU) M Hot -> Fr. split; [|split].
+  - apply (WF_coll_add_full m W); assumption.
+  - apply typed_coll_add_full; assumption.
+  - exact (uniq_attr_refcells s _ Fr HU).
+Qed.
+
+Lemma K_pop s s' (x : oid) (f : fid) i :
+  K m s -> f_many (fd m f) = true ->
+  s' = snd (fst (coll_pop_full m s (x, f) i)) ->
+  (forall (a : oid) (h : fid), f_isref (fd m h) = false -> f_many (fd m h) = true -> vals s' (a, h) = vals s (a, h)) ->
+  K m s'.
+Proof.
+  intros (HW & HT & HU) M -> Fr. split; [|split].
+  - apply (WF_pop m W); assumption.
+  - apply typed_coll_pop_full; assumption.
+  - exact (uniq_attr_refcells s _ Fr HU).
+Qed.
+
+Lemma nodupv_of_objs l : (forall w, In w l -> exists y, w = VObj y) -> nodup_objs l -> nodupv l = true.
+Proof.
+  unfold nodup_objs. induction l as [|a r IH]; intros Ho ND; [reflexivity|].
+  destruct (Ho a (or_introl eq_refl)) as (y & ->). simpl in ND. inversion ND as [|? ? Hn ND']; subst.
+  cbn [nodupv]. rewrite IH; [|intros w Hw; apply Ho; right; exact Hw | exact ND'].
+  rewrite andb_true_r. apply negb_true_iff. apply vmem_obj_false. rewrite <- objs_of_In. exact Hn.
+Qed.
+
+(* ---------- the side condition of a primitive command in the state it meets ---------- *)
+(* the kinds of C06Proofs.v (attributes, plain references), or Set / Add / Remove on a containment
+   reference - with or without a container end as opposite - that puts only an unowned child under
+   the owner (the property's `does not take its value away from another container`); opp_typed: the
+   owner conforms to the type of the container end *)
+Definition covered3 (s : state) (c : cmd) : Prop :=
+  covered m c \/
+  match c with
+  | CSet x f v _ => f_cont (fd m f) = true /\ f_many (fd m f) = false /\
+                    (forall y, v = VObj y -> unowned m s y /\ opp_typed m x f)
+  | CAdd x f v _ => exists y, v = VObj y /\ f_cont (fd m f) = true /\ f_many (fd m f) = true /\
+                              unowned m s y /\ opp_typed m x f
+  | CRemove x f v _ => f_cont (fd m f) = true /\ f_many (fd m f) = true
+  | CMove x f v from _ => f_cont (fd m f) = true /\ f_many (fd m f) = true /\ (is_none v = true \/ from = None)
+  | _ => False
+  end \/
+  (* Set on a container end h, the opposite of a containment reference f: unset (exact when the owner is
+     the last child of its container, F-C06-relink-order otherwise), or give an unowned object a container *)
+  match c with
+  | CSet x h v _ =>
+    exists f, f_cont (fd m f) = true /\ f_opp (fd m f) = Some h /\
+      ((v = VNone /\
+        forall p, vals s (x, h) = [VObj p] -> f_many (fd m f) = true -> lastv (VObj x) (vals s (p, f))) \/
+       (exists p, v = VObj p /\ vals s (x, h) = [VNone] /\ unowned m s x /\
+                  (f_many (fd m f) = false -> vals s (p, f) = [VNone]) /\ opp_typed m x h))
+  | _ => False
+  end.
+
+Lemma nonref_neq (h f : fid) : f_isref (fd m h) = false -> f_isref (fd m f) = true -> h <> f.
+Proof. intros A B E. subst h. congruence. Qed.
+
+Lemma cell_neq_feat (a b : oid) (h f : fid) : h <> f -> ((b, f) : cell) <> (a, h).
+Proof. intros N E. inversion E. congruence. Qed.
+
+Lemma opp_typed_noopp (x : oid) (f : fid) : f_opp (fd m f) = None -> opp_typed m x f.
+Proof. intros H g E. congruence. Qed.
+
+Lemma covered3_exec s c c1 s' c2 :
+  K m s -> covered3 s c ->
+  can_execute m s c = (Ok true, c1) -> execute m s c1 = ((None, s'), c2) ->
+  inverts m c2 s s' /\ K m s'.
+Proof.
+  intros HK [Cv|[Cv|Cv]] HC HE.
+  - (* the kinds of C06Proofs.v *)
+    destruct c as [x f v p|x f v idx|x f v idx|x f v from to| |]; simpl in Cv; try contradiction.
+    + destruct Cv as [P M]. cbn [can_execute] in HC. apply pair_eq_inv in HC. destruct HC as [_ Hc]. subst c1.
+      destruct (set_inverts m s x f v p s' c2 P M (K_cell_wt_single s x f HK M) HE) as (I & OC & CW).
+      split; [exact I|]. destruct (f_isref (fd m f)) eqn:R.
+      * destruct P as [P|[Pc Po]]; [congruence|].
+        apply (K_set s s' x f v HK M (fun _ _ => opp_typed_noopp x f Po) (exec_set_state m s x f v p s' c2 HE)).
+        intros a h Rh _. rewrite (proj1 OC). apply upd_other. apply cell_neq_feat. exact (nonref_neq h f Rh R).
+      * exact (K_only_cell_attr s s' x f _ HK R OC CW).
+    + destruct (add_inverts m s x f v idx c1 s' c2 Cv (K_cell_wt_attr s x f HK Cv) HC HE) as (i' & _ & I & OC & CW).
+      split; [exact I | exact (K_only_cell_attr s s' x f _ HK (proj2 Cv) OC CW)].
+    + destruct (remove_inverts m s x f v idx c1 s' c2 Cv (K_cell_wt_attr s x f HK Cv) HC HE) as (i & w & l2 & _ & I & OC & CW).
+      split; [exact I | exact (K_only_cell_attr s s' x f _ HK (proj2 Cv) OC CW)].
+    + destruct Cv as [A Hx].
+      destruct (move_inverts m s x f v from to c1 s' c2 A (K_cell_wt_attr s x f HK A) Hx HC HE)
+        as (fr & w & to' & l2 & _ & I & OC & CW).
+      split; [exact I | exact (K_only_cell_attr s s' x f _ HK (proj2 A) OC CW)].
+  - (* containment *)
+    destruct c as [x f v p|x f v idx|x f v idx|x f v from to| |]; try contradiction.
+    + destruct Cv as (Hc & M & Hcond). pose proof (wf_cont_ref m W f Hc) as R.
+      cbn [can_execute] in HC. apply pair_eq_inv in HC. destruct HC as [_ Hc1]. subst c1.
+      assert (Hu : forall y, v = VObj y -> unowned m s y) by (intros y Ey; exact (proj1 (Hcond y Ey))).
+      assert (Hot : forall y, v = VObj y -> opp_typed m x f) by (intros y Ey; exact (proj2 (Hcond y Ey))).
+      destruct (f_opp (fd m f)) as [g|] eqn:Ho.
+      * destruct (set_ce_undo_redo s f g x v p s' c2 HK Hc Ho M Hu HE) as (I & VS & _).
+        split; [exact I|]. apply (K_set s s' x f v HK M Hot (exec_set_state m s x f v p s' c2 HE)).
+        intros a h Rh _. rewrite VS. unfold SetV. cbv zeta.
+        pose proof (ce_pair_of_wf m f g W Hc Ho) as CP.
+        assert (N1 : forall b : oid, ((b, g) : cell) <> (a, h)).
+        { intros b. apply cell_neq_feat. exact (nonref_neq h g Rh (ce_ref_g m f g CP)). }
+        assert (N2 : ((x, f) : cell) <> (a, h)) by (apply cell_neq_feat; exact (nonref_neq h f Rh R)).
+        destruct (obj_of v); destruct (obj_of (single s (x, f))); rewrite ?(upd_other _ (_, g) (a, h)) by apply N1;
+          apply upd_other; exact N2.
+      * assert (CP : cont_plain m f) by (split; [exact R | split; assumption]).
+        destruct (set_cont_inverts m s x f v p s' c2 CP M (K_cell_wt_single s x f HK M) Hu) as (I & VS & _); [|exact HE|].
+        { intros q Eq. apply (child_facts_plain s x f q (proj1 HK) Hc). rewrite Eq. left. reflexivity. }
+        split; [exact I|]. apply (K_set s s' x f v HK M Hot (exec_set_state m s x f v p s' c2 HE)).
+        intros a h Rh _. rewrite VS. apply upd_other. apply cell_neq_feat. exact (nonref_neq h f Rh R).
+    + destruct Cv as (y & -> & Hc & M & Hu & Hot). pose proof (wf_cont_ref m W f Hc) as R.
+      destruct (exec_add_state m s x f _ idx c1 s' c2 HC HE) as (pos & Es).
+      destruct (f_opp (fd m f)) as [g|] eqn:Ho.
+      * destruct (add_ce_undo_redo s f g x y idx c1 s' c2 HK Hc Ho M Hu HC HE) as (i' & _ & I & (VS & _)).
+        split; [exact I|]. apply (K_add s s' x f pos _ HK M Hot Es).
+        pose proof (ce_pair_of_wf m f g W Hc Ho) as CP.
+        intros a h Rh _. rewrite VS.
+        rewrite upd_other by (apply cell_neq_feat; exact (nonref_neq h f Rh R)).
+        apply upd_other. apply cell_neq_feat. exact (nonref_neq h g Rh (ce_ref_g m f g CP)).
+      * assert (CP : cont_plain m f) by (split; [exact R | split; assumption]).
+        destruct (add_cont_inverts m s x f y idx c1 s' c2 CP M Hu HC HE) as (i' & _ & I & (VS & _)).
+        split; [exact I|]. apply (K_add s s' x f pos _ HK M Hot Es).
+        intros a h Rh _. rewrite VS. apply upd_other. apply cell_neq_feat. exact (nonref_neq h f Rh R).
+    + destruct Cv as (Hc & M). pose proof (wf_cont_ref m W f Hc) as R.
+      destruct (exec_remove_state m s x f v idx c1 s' c2 HC HE) as (i0 & Es).
+      destruct (f_opp (fd m f)) as [g|] eqn:Ho.
+      * destruct (remove_ce_undo_redo s f g x v idx c1 s' c2 HK Hc Ho M HC HE) as (i & y & l2 & _ & I & (VS & _)).
+        split; [exact I|]. apply (K_pop s s' x f i0 HK M Es).
+        pose proof (ce_pair_of_wf m f g W Hc Ho) as CP.
+        intros a h Rh _. rewrite VS.
+        rewrite upd_other by (apply cell_neq_feat; exact (nonref_neq h f Rh R)).
+        apply upd_other. apply cell_neq_feat. exact (nonref_neq h g Rh (ce_ref_g m f g CP)).
+      * assert (CP : cont_plain m f) by (split; [exact R | split; assumption]).
+        pose proof HK as (HW & HT & _).
+        assert (Hobj : forall w, In w (vals s (x, f)) -> exists y, w = VObj y) by (intros w; apply many_ref_objs; assumption).
+        destruct (remove_cont_inverts m s x f v idx c1 s' c2 CP M) as (i & y & l2 & _ & I & (VS & _)); try assumption.
+        { unfold cell_wt. rewrite M. split; [intros w Hw; exact (check_elem_of_typed s x f w HT M Hw)|].
+          intros _. apply nodupv_of_objs; [exact Hobj|]. apply (proj2 (wf_shape m s HW x f)). right. exact Hc. }
+        { intros w Hw. destruct (Hobj w Hw) as (y & ->). exists y. split; [reflexivity|].
+          exact (child_facts_plain s x f y HW Hc Hw). }
+        split; [exact I|]. apply (K_pop s s' x f i0 HK M Es).
+        intros a h Rh _. rewrite VS. apply upd_other. apply cell_neq_feat. exact (nonref_neq h f Rh R).
+    + destruct Cv as (Hc & M & Hx). pose proof (wf_cont_ref m W f Hc) as R. pose proof HK as (HW & HT & HU).
+      destruct (move_cont_undo_redo s f x v from to c1 s' c2 HK Hc M Hx HC HE) as (fr & w & to' & l2 & _ & I & OC).
+      split; [exact I|].
+      destruct (exec_move_state m s x f v from to c1 s' c2 HC HE) as (i & j & w0 & Es & Hw0).
+      assert (Hot : opp_typed m x f).
+      { intros g Ho. pose proof (ce_pair_of_wf m f g W Hc Ho) as CP.
+        destruct (many_ref_objs s x f w0 HT R M Hw0) as (y & ->).
+        destruct (child_facts s x f g y HW CP Hw0) as (_ & _ & Vy).
+        pose proof (HT (y, g) (VObj x)) as Hk. rewrite Vy in Hk. exact (Hk (or_introl eq_refl)). }
+      split; [|split].
+      * rewrite Es. apply (WF_coll_add_full m W); [|exact M]. apply (WF_pop m W); assumption.
+      * rewrite Es. apply typed_coll_add_full; [|exact M | exact Hot]. apply typed_coll_pop_full. exact HT.
+      * apply (uniq_attr_refcells s s'); [|exact HU]. intros a h Rh _. rewrite (proj1 OC). apply upd_other.
+        apply cell_neq_feat. exact (nonref_neq h f Rh R).
+  - (* Set on a container end *)
+    destruct c as [x h v p0|x f v idx|x f v idx|x f v from to| |]; try contradiction.
+    destruct Cv as (f & Hc & Ho & Cases). pose proof (ce_pair_of_wf m f h W Hc Ho) as CP.
+    pose proof (ce_single_g m f h CP) as M. pose proof (wf_cont_ref m W f Hc) as R.
+    cbn [can_execute] in HC. apply pair_eq_inv in HC. destruct HC as [_ Hc1]. subst c1.
+    pose proof HK as (HW & HT & _).
+    assert (Fr : forall lx ly (q : oid) cq, cc2 s s' q f lx x h ly cq ->
+                 forall (a : oid) (h0 : fid), f_isref (fd m h0) = false -> f_many (fd m h0) = true ->
+                                             vals s' (a, h0) = vals s (a, h0)).
+    { intros lx ly q cq (VS & _) a h0 Rh _. rewrite VS.
+      rewrite upd_other by (apply cell_neq_feat; exact (nonref_neq h0 f Rh R)).
+      apply upd_other. apply cell_neq_feat. exact (nonref_neq h0 h Rh (ce_ref_g m f h CP)). }
+    destruct Cases as [[-> Hlast]|(p & -> & Hxh & Hu & Hfree & Hot)].
+    + destruct (proj1 (wf_shape m s HW x h) M) as (v0 & Hv0).
+      destruct (ref_slot_cases s x h v0 HT (ce_ref_g m f h CP)) as [->|(p & ->)]; [rewrite Hv0; left; reflexivity | |].
+      * destruct (set_none_none_inverts m s x h p0 s' c2 Hv0 HE) as (I & O).
+        split; [exact I | exact (K_obs_eq m s s' (obs_eq_sym _ _ O) HK)].
+      * assert (Hin : In (VObj x) (vals s (p, f))).
+        { apply (wf_sym m s HW h f (ce_opp_g m f h CP) x p). unfold C01Proofs.R. rewrite Hv0. left. reflexivity. }
+        destruct (child_facts s p f h x HW CP Hin) as (A & B & _).
+        destruct (set_end_unlink_inverts m f h s x p p0 s' c2 CP Hv0 Hin) as (I & CC); try assumption.
+        { intros Mf. destruct (proj1 (wf_shape m s HW p f) Mf) as (w & Hw). rewrite Hw in Hin |- *.
+          destruct Hin as [<-|[]]. reflexivity. }
+        { apply (proj2 (wf_shape m s HW p f)). right. exact Hc. }
+        { pose proof (HT (x, h) (VObj p)) as Hk. rewrite Hv0 in Hk. specialize (Hk (or_introl eq_refl)).
+          unfold okv in Hk. cbn [snd] in Hk. rewrite M in Hk. exact Hk. }
+        { exact (Hlast p Hv0). }
+        split; [exact I|].
+        apply (K_set s s' x h VNone HK M (fun y E => ltac:(discriminate)) (exec_set_state m s x h VNone p0 s' c2 HE)).
+        exact (Fr _ _ _ _ CC).
+    + assert (Habs : ~ In (VObj x) (vals s (p, f))).
+      { intros Hin. destruct (child_facts_plain s p f x HW Hc Hin) as [A _]. destruct Hu as [Hu _]. congruence. }
+      destruct (set_end_link_inverts m f h s x p p0 s' c2 CP Hxh Hu Hfree Habs HE) as (I & CC).
+      split; [exact I|].
+      apply (K_set s s' x h (VObj p) HK M (fun _ _ => Hot) (exec_set_state m s x h (VObj p) p0 s' c2 HE)).
+      exact (Fr _ _ _ _ CC).
+Qed.
+
+(* a covered primitive command that raises leaves the model as it was *)
+Lemma covered3_raise s c c1 e s' c2 :
+  K m s -> covered3 s c ->
+  can_execute m s c = (Ok true, c1) -> execute m s c1 = ((Some e, s'), c2) -> s' = s.
+Proof.
+  intros HK Cv HC HE.
+  destruct c as [x f v p|x f v idx|x f v idx|x f v from to| |].
+  - cbn [can_execute] in HC. apply pair_eq_inv in HC. destruct HC as [_ Hc]. subst c1.
+    cbn [execute] in HE. apply pair_eq_inv in HE. destruct HE as [H1 _]. eapply set_full_raise; exact H1.
+  - cbn [can_execute] in HC. destruct (negb (base_can m x f)); [discriminate|].
+    destruct (negb (f_many (fd m f))); [discriminate|].
+    apply pair_eq_inv in HC. destruct HC as [_ Hc]. subst c1. cbn [execute] in HE.
+    destruct idx as [i|]; apply pair_eq_inv in HE; destruct HE as [H1 _]; eapply coll_add_raise; exact H1.
+  - cbn [can_execute] in HC. destruct (negb (base_can m x f)); [discriminate|].
+    destruct (negb (f_many (fd m f))); [discriminate|].
+    assert (EX : exists v1 idx1, c1 = CRemove x f v1 idx1).
+    { destruct idx as [i0|].
+      - destruct (py_get i0 (vals s (x, f))); apply pair_eq_inv in HC; destruct HC as [_ Hc]; subst c1; eauto.
+      - apply pair_eq_inv in HC; destruct HC as [_ Hc]; subst c1; eauto. }
+    destruct EX as (v1 & idx1 & Hc). subst c1. cbn [execute] in HE.
+    match type of HE with (match ?ri with _ => _ end) = _ => destruct ri as [i|e0] end.
+    + destruct (coll_pop_full m s (x, f) i) as [[[e1|] s1] w] eqn:EP;
+        apply pair_eq_inv in HE; destruct HE as [H1 _]; [|discriminate].
+      inversion H1; subst. eapply coll_pop_raise; exact EP.
+    + apply pair_eq_inv in HE. destruct HE as [H1 _]. inversion H1. reflexivity.
+  - assert (MW : f_many (fd m f) = true /\ forall w, In w (vals s (x, f)) -> check_elem m f w = true).
+    { destruct Cv as [Cv|[Cv|[]]].
+      - simpl in Cv. destruct Cv as [A _]. split; [exact (proj1 A)|].
+        pose proof (K_cell_wt_attr s x f HK A) as CW. unfold cell_wt in CW. rewrite (proj1 A) in CW. exact (proj1 CW).
+      - destruct Cv as (_ & M & _). split; [exact M|]. intros w Hw.
+        exact (check_elem_of_typed s x f w (proj1 (proj2 HK)) M Hw). }
+    destruct MW as [M Wt].
+    cbn [can_execute] in HC.
+    destruct (negb (base_can m x f)); [discriminate|]. rewrite M in HC. cbn [negb] in HC.
+    assert (EX : exists v1 fr0, c1 = CMove x f v1 fr0 to).
+    { destruct (is_none v).
+      - destruct from as [i0|]; [|apply pair_eq_inv in HC; destruct HC; discriminate].
+        destruct (py_get i0 (vals s (x, f))); apply pair_eq_inv in HC; destruct HC as [_ Hc]; subst c1; eauto.
+      - destruct from as [i0|].
+        + apply pair_eq_inv in HC; destruct HC as [_ Hc]; subst c1; eauto.
+        + destruct (index_of veqb v (vals s (x, f))); apply pair_eq_inv in HC; destruct HC as [_ Hc]; subst c1; eauto. }
+    destruct EX as (v1 & fr0 & Hc). subst c1. cbn [execute] in HE. unfold do_move in HE.
+    match type of HE with (match coll_pop_full m s (x, f) ?z with _ => _ end) = _ => set (fr := z) in * end.
+    destruct (coll_pop_full m s (x, f) fr) as [[[e1|] s1] w] eqn:EP.
+    + apply pair_eq_inv in HE. destruct HE as [H1 _]. inversion H1; subst. eapply coll_pop_raise; exact EP.
+    + exfalso. destruct (pop_full_inv m s x f fr s1 w EP) as (w' & l1 & Pp & Ew). subst w.
+      apply pair_eq_inv in HE. destruct HE as [H1 _].
+      pose proof (Wt w' (py_pop_In _ _ _ _ Pp)) as Ck.
+      unfold coll_add_full in H1. rewrite Ck in H1. discriminate.
+  - destruct Cv as [[]|[[]|[]]].
+  - destruct Cv as [[]|[[]|[]]].
+Qed.
+
+Lemma covered3_raise_obs s c c1 e s' c2 :
+  K m s -> covered3 s c ->
+  can_execute m s c = (Ok true, c1) -> execute m s c1 = ((Some e, s'), c2) -> obs_eq s' s.
+Proof. intros A B C D. rewrite (covered3_raise s c c1 e s' c2 A B C D). apply obs_eq_refl. Qed.
+
+(* ---------- the covered commands: covered3 closed under Compound ---------- *)
+Definition covered4 : state -> cmd -> Prop := okC m covered3.
+
+Lemma covered4_exec s c c1 s' c2 :
+  K m s -> covered4 s c -> can_execute m s c = (Ok true, c1) -> execute m s c1 = ((None, s'), c2) ->
+  inverts m c2 s s' /\ K m s'.
+Proof. exact (okC_exec m (K m) covered3 covered3_exec covered3_raise_obs s c c1 s' c2). Qed.
+
+Lemma covered4_raise s c c1 e s' c2 :
+  K m s -> covered4 s c -> can_execute m s c = (Ok true, c1) -> execute m s c1 = ((Some e, s'), c2) -> obs_eq s' s.
+Proof. exact (okC_raise m (K m) covered3 covered3_exec covered3_raise_obs s c c1 e s' c2). Qed.
+
+(* ---------- the word-level theorems: containment, container ends, compounds ---------- *)
+Theorem cont_invariant_of_words s0 w :
+  K m s0 -> run_ok m covered4 (s0, [], []) w ->
+  ginv m (K m) (abs (st_run m (s0, empty_stack) w)).
+Proof. exact (g2_invariant_of_words m (K m) covered4 (K_obs_eq m) covered4_exec covered4_raise s0 w). Qed.
+
+Theorem cont_k_undo_k_redo s0 w k :
+  K m s0 -> run_ok m covered4 (s0, [], []) w ->
+  let ms := st_run m (s0, empty_stack) w in
+  (k <= length (done_of (snd ms)))%nat ->
+  let ms' := st_run m ms (repeat SUndo k ++ repeat SRedo k) in
+  obs_eq (fst ms') (fst ms) /\ snd ms' = snd ms.
+Proof. exact (g2_k_undo_k_redo_stack m (K m) covered4 (K_obs_eq m) covered4_exec covered4_raise s0 w k). Qed.
+
+End Lift.
+
+(* ---------- compounds over the reference kinds of Proofs/C06Refs.v (metamodels without containment) ---------- *)
+Section RefsCompound.
+Variable m : mm.
+Hypothesis Hnc : no_containment m.
+Hypothesis Hwf : wf_opp m.
+Hypothesis Hrt : ref_typed m.
+
+Definition covered2C : state -> cmd -> Prop := okC m (covered2 m).
+
+Lemma covered2_raise_obs s c c1 e s' c2 :
+  J m s -> covered2 m s c ->
+  can_execute m s c = (Ok true, c1) -> execute m s c1 = ((Some e, s'), c2) -> obs_eq s' s.
+Proof. intros A B C D. rewrite (covered2_raise m s c c1 e s' c2 A B C D). apply obs_eq_refl. Qed.
+
+Theorem refsC_invariant_of_words s0 w :
+  J m s0 -> run_ok m covered2C (s0, [], []) w ->
+  ginv m (J m) (abs (st_run m (s0, empty_stack) w)).
+Proof.
+  apply (g2_invariant_of_words m (J m) covered2C (J_obs_eq m)).
+  - exact (okC_exec m (J m) (covered2 m) (covered2_exec m Hnc Hwf Hrt) covered2_raise_obs).
+  - exact (okC_raise m (J m) (covered2 m) (covered2_exec m Hnc Hwf Hrt) covered2_raise_obs).
+Qed.
+
+Theorem refsC_k_undo_k_redo s0 w k :
+  J m s0 -> run_ok m covered2C (s0, [], []) w ->
+  let ms := st_run m (s0, empty_stack) w in
+  (k <= length (done_of (snd ms)))%nat ->
+  let ms' := st_run m ms (repeat SUndo k ++ repeat SRedo k) in
+  obs_eq (fst ms') (fst ms) /\ snd ms' = snd ms.
+Proof.
+  apply (g2_k_undo_k_redo_stack m (J m) covered2C (J_obs_eq m)).
+  - exact (okC_exec m (J m) (covered2 m) (covered2_exec m Hnc Hwf Hrt) covered2_raise_obs).
+  - exact (okC_raise m (J m) (covered2 m) (covered2_exec m Hnc Hwf Hrt) covered2_raise_obs).
+Qed.
+End RefsCompound.
+
+(* ====================================================================== *)
+(* Non-vacuity on SymLink's metamodel (kids <-> parent, pet, twin <-> twinof) *)
+(* ====================================================================== *)
+Lemma ex_link_premises :
+  wf_mm ex_mm_link /\ ref_typed ex_mm_link /\ K ex_mm_link (init_state ex_mm_link).
+Proof.
+  destruct ex_mm_link_wf as [W D]. split; [exact W|]. split; [|split; [|split]].
+  - intros f. fcase f; intros H; try discriminate; eexists; reflexivity.
+  - exact (WF_init ex_mm_link W D).
+  - apply typed_init. intros f. fcase f; intros; reflexivity.
+  - intros x f R M _. exfalso. revert R M. fcase f; intros; discriminate.
+Qed.
+
+Lemma opp_typed_link_0 : opp_typed ex_mm_link 0 0 /\ opp_typed ex_mm_link 1 0 /\ opp_typed ex_mm_link 2 3 /\
+                         opp_typed ex_mm_link 0 2 /\ opp_typed ex_mm_link 3 1.
+Proof. repeat split; intros g H; inversion H; reflexivity. Qed.
+
+(* 3.parent = 1; 3.parent = None (Set on the container end, both ways); 0.pet = 3; 0.pet = None;
+   0.kids.append(2); 2.twin = 3;
+   Compound(Remove(0.kids, 2), Add(1.kids, 2)) - the move of a child as EMF expresses it -; undo; undo; redo *)
+Definition ex_cont_word : list sop :=
+  [SExec (CSet 3 1 (VObj 1) VNone);
+   SExec (CSet 3 1 VNone VNone);
+   SExec (CSet 0 2 (VObj 3) VNone);
+   SExec (CSet 0 2 VNone VNone);
+   SExec (CAdd 0 0 (VObj 2) None);
+   SExec (CSet 2 3 (VObj 3) VNone);
+   SExec (CCompound [CRemove 0 0 (VObj 2) None; CAdd 1 0 (VObj 2) None]);
+   SUndo; SUndo; SRedo].
+
+Ltac unown := split; vm_compute; [reflexivity | exact I].
+
+Lemma ex_cont_word_ok :
+  run_ok ex_mm_link (covered4 ex_mm_link) (init_state ex_mm_link, [], []) ex_cont_word.
+Proof.
+  destruct opp_typed_link_0 as (T00 & T10 & T23 & T02 & T31).
+  unfold ex_cont_word. cbn [run_ok gop_ok fst].
+  split. { right; right. exists 0. split; [reflexivity|]. split; [reflexivity|]. right. exists 1.
+           split; [reflexivity|]. split; [vm_compute; reflexivity|]. split; [unown|].
+           split; [intros H; vm_compute in H; discriminate | exact T31]. }
+  split. { right; right. exists 0. split; [reflexivity|]. split; [reflexivity|]. left. split; [reflexivity|].
+           intros p E _. vm_compute in E. inversion E; subst p. exists []. vm_compute. reflexivity. }
+  split. { right; left. split; [reflexivity|]. split; [reflexivity|]. intros y E. inversion E; subst y. split; [unown | exact T02]. }
+  split. { right; left. split; [reflexivity|]. split; [reflexivity|]. intros y E. discriminate. }
+  split. { right; left. exists 2. split; [reflexivity|]. split; [reflexivity|]. split; [reflexivity|]. split; [unown | exact T00]. }
+  split. { right; left. split; [reflexivity|]. split; [reflexivity|]. intros y E. inversion E; subst y. split; [unown | exact T23]. }
+  split.
+  { split; [|vm_compute; intros _; reflexivity].
+    split; [right; left; split; reflexivity|]. split; [vm_compute; reflexivity|]. intros _.
+    split; [right; left; exists 2; split; [reflexivity|]; split; [reflexivity|]; split; [reflexivity|]; split; [unown | exact T10]|].
+    split; [vm_compute; reflexivity|]. intros _. exact I. }
+  repeat split.
+Qed.
+
+Example ex_cont_word_result :
+  let ms := st_run ex_mm_link (init_state ex_mm_link, empty_stack) ex_cont_word in
+  vals (fst ms) (0, 0) = [VObj 2] /\ vals (fst ms) (1, 0) = [] /\ vals (fst ms) (2, 1) = [VObj 0] /\
+  cont (fst ms) 2 = Some (0, 0) /\ cont (fst ms) 3 = Some (2, 3) /\ vals (fst ms) (3, 4) = [VObj 2] /\
+  sidx (snd ms) = 5%Z /\ zlen (items (snd ms)) = 7%Z /\
+  let ms1 := st_run ex_mm_link ms [SRedo] in
+  vals (fst ms1) (0, 0) = [] /\ vals (fst ms1) (1, 0) = [VObj 2] /\ vals (fst ms1) (2, 1) = [VObj 1] /\
+  cont (fst ms1) 2 = Some (1, 0) /\
+  let ms2 := st_run ex_mm_link ms1 (repeat SUndo 7 ++ repeat SRedo 7) in
+  vals (fst ms2) (1, 0) = [VObj 2] /\ cont (fst ms2) 2 = Some (1, 0) /\ cont (fst ms2) 3 = Some (2, 3) /\
+  sidx (snd ms2) = 6%Z /\
+  (* after the first command alone: 3 sits under 1 through its container end *)
+  let ms3 := st_run ex_mm_link (init_state ex_mm_link, empty_stack) [SExec (CSet 3 1 (VObj 1) VNone)] in
+  vals (fst ms3) (1, 0) = [VObj 3] /\ cont (fst ms3) 3 = Some (1, 0).
+Proof. vm_compute. repeat split; reflexivity. Qed.
+
+(* ====================================================================== *)
+(* 1b. What the model's Compound.can_execute / can_undo ask                *)
+(* ====================================================================== *)
+Section CompoundAsks.
+Variable m : mm.
+
+(* can_execute: every member is asked in the state BEFORE the first member runs (and records there what
+   its can_execute records); the compound is accepted iff every member is *)
+Theorem compound_can_execute_spec s cs c1 :
+  can_execute m s (CCompound cs) = (Ok true, c1) <->
+  (c1 = CCompound (map (prep m s) cs) /\ Forall (fun c => fst (can_execute m s c) = Ok true) cs).
+Proof.
+  rewrite can_execute_compound. split.
+  - destruct (ccane m s cs) as [b l1] eqn:E. intros H. inversion H; subst b c1.
+    split; [f_equal; exact (ccane_ok m s cs l1 E)|].
+    clear H. revert l1 E. induction cs as [|c r IH]; intros l1 E; [constructor|].
+    rewrite ccane_cons in E. destruct (can_execute m s c) as [[[|]|e] c'] eqn:Ec; try (inversion E; fail).
+    destruct (ccane m s r) as [b r'] eqn:Er. inversion E; subst b l1.
+    constructor; [rewrite Ec; reflexivity | exact (IH r' eq_refl)].
+  - intros [-> HF]. assert (E : ccane m s cs = (Ok true, map (prep m s) cs)); [|rewrite E; reflexivity].
+    induction HF as [|c r Hc _ IH]; [reflexivity|].
+    rewrite ccane_cons. unfold prep at 1. cbn [map]. destruct (can_execute m s c) as [b c'] eqn:Ec.
+    cbn [fst] in Hc. subst b. rewrite IH. reflexivity.
+Qed.
+
+(* can_undo: every member is asked on the state the WHOLE compound left *)
+Theorem compound_can_undo_spec t cs :
+  can_undo m t (CCompound cs) = Ok true <-> Forall (fun c => can_undo m t c = Ok true) cs.
+Proof.
+  rewrite can_undo_compound. induction cs as [|c r IH]; [split; [constructor | reflexivity]|].
+  rewrite ccanu_cons. split.
+  - destruct (can_undo m t c) as [[|]|e] eqn:Ec; intros H; try discriminate.
+    constructor; [exact Ec | apply IH; exact H].
+  - intros H. inversion H as [|? ? Hc Hr]; subst. rewrite Hc. apply IH. exact Hr.
+Qed.
+
+End CompoundAsks.
+
+(* the can_undo premise of compound_inverts cannot be dropped (F-C06-compound-can-undo): on C06Proofs' ex_mm,
+   ns = [1], Compound(Add(ns, 7), Remove(ns, 7)): every member is covered and accepted in the state it meets,
+   the compound executes - and Add.can_undo, asked on the final state [1], answers False: CommandStack.undo
+   returns without undoing and leaves the compound on top *)
+Example compound_can_undo_needed_refuted :
+  let s0 := fold_left (next ex_mm) [OAppend 0 1 (VInt 1)] (init_state ex_mm) in
+  let c := CCompound [CAdd 0 1 (VInt 7) None; CRemove 0 1 (VInt 7) None] in
+  okM ex_mm (covered3 ex_mm) s0 s0 [CAdd 0 1 (VInt 7) None; CRemove 0 1 (VInt 7) None] /\
+  ~ cu_end ex_mm s0 c /\
+  (let ms := st_run ex_mm (s0, empty_stack) [SExec c] in
+   sidx (snd ms) = 0%Z /\ vals (fst ms) (0, 1) = [VInt 1] /\
+   fst (st_step ex_mm ms SUndo) = None /\ sidx (snd (snd (st_step ex_mm ms SUndo))) = 0%Z).
+Proof.
+  cbv zeta. split; [|split].
+  - split; [left; split; reflexivity|]. split; [vm_compute; reflexivity|]. intros _.
+    split; [left; split; reflexivity|]. split; [vm_compute; reflexivity|]. intros _. exact I.
+  - intros H. unfold cu_end in H. vm_compute in H. specialize (H eq_refl). discriminate.
+  - vm_compute. repeat split; reflexivity.
+Qed.
+
+(* ====================================================================== *)
+(* 3. Delete                                                               *)
+(* ====================================================================== *)
+(* 3a. whatever is deleted (recursive, cross-referenced, ...) and whatever the snapshot holds, execute /
+   redo and undo of a Delete keep the global well-formedness WF: undo is a sequence of ordinary setter,
+   extend and insert calls *)
+Section DeleteWF.
+Variable m : mm.
+Hypothesis W : wf_mm m.
+
+Lemma WF_seq o (g : state -> outcome) :
+  WF m (snd o) -> (forall s, WF m s -> WF m (snd (g s))) -> WF m (snd (seq_outcome o g)).
+Proof. destruct o as [[e|] s]; cbn [seq_outcome snd]; intros H Hg; [exact H | apply Hg; exact H]. Qed.
+
+Lemma WF_restore_refs_one (e : oid) l : forall s, WF m s -> WF m (snd (restore_refs_one m e l s)).
+Proof.
+  induction l as [|[f content] r IH]; intros s H; cbn [restore_refs_one]; [exact H|].
+  apply WF_seq; [|exact IH]. destruct (f_many (fd m f)) eqn:M.
+  - apply (WF_extend m W); assumption.
+  - apply (WF_set_full m W); assumption.
+Qed.
+
+Lemma WF_restore_refs l : forall s, WF m s -> WF m (snd (restore_refs m l s)).
+Proof.
+  induction l as [|[e rl] r IH]; intros s H; cbn [restore_refs]; [exact H|].
+  apply WF_seq; [apply WF_restore_refs_one; exact H | exact IH].
+Qed.
+
+Lemma WF_restore_invs_one (e : oid) l : forall s, WF m s -> WF m (snd (restore_invs_one m e l s)).
+Proof.
+  induction l as [|[i [a h]] r IH]; intros s H; cbn [restore_invs_one]; [exact H|].
+  apply WF_seq; [|exact IH]. cbn [snd]. destruct (f_many (fd m h)) eqn:M.
+  - apply (WF_coll_add_full m W); assumption.
+  - apply (WF_set_full m W); assumption.
+Qed.
+
+Lemma WF_restore_invs l : forall s, WF m s -> WF m (snd (restore_invs m l s)).
+Proof.
+  induction l as [|[e il] r IH]; intros s H; cbn [restore_invs]; [exact H|].
+  apply WF_seq; [apply WF_restore_invs_one; exact H | exact IH].
+Qed.
+
+Theorem delete_keeps_WF s (x : oid) r i :
+  WF m s ->
+  WF m (snd (fst (execute m s (CDelete x r i)))) /\ WF m (snd (fst (redo m s (CDelete x r i)))) /\
+  WF m (snd (fst (undo m s (CDelete x r i)))).
+Proof.
+  intros H. assert (D : WF m (snd (fst (do_delete m s x)))).
+  { unfold do_delete. destruct (snap_invs m s (delete_elements m s x)); cbn [fst snd]; [|exact H].
+    apply (OwnAll.WF_delete_obj m W). exact H. }
+  split; [exact D|]. split; [exact D|]. cbn [undo fst].
+  apply WF_seq; [apply WF_restore_refs; exact H | apply WF_restore_invs].
+Qed.
+
+End DeleteWF.
+
+
+Lemma cc2_obs_l t s t' x f lx y g ly c : obs_eq t s -> cc2 t t' x f lx y g ly c -> cc2 s t' x f lx y g ly c.
+Proof.
+  intros (A & B & C & D) (V & Cn & E & R). repeat split; intros.
+  - rewrite V. unfold upd. destruct (cell_eqb (x, f) k'); [reflexivity|]. destruct (cell_eqb (y, g) k'); [reflexivity | apply A].
+  - rewrite Cn. unfold updn. destruct (y =? o); [reflexivity | apply B].
+  - rewrite E. apply C.
+  - rewrite R. apply D.
+Qed.
+
+Lemma cc2_obs_r s t' t'' x f lx y g ly c : cc2 s t' x f lx y g ly c -> obs_eq t'' t' -> cc2 s t'' x f lx y g ly c.
+Proof.
+  intros (V & Cn & E & R) (A & B & C & D). repeat split; intros.
+  - rewrite A. apply V.
+  - rewrite B. apply Cn.
+  - rewrite C. apply E.
+  - rewrite D. apply R.
+Qed.
+
+Lemma restore_refs_one_app m e a b t :
+  restore_refs_one m e (a ++ b) t = seq_outcome (restore_refs_one m e a t) (restore_refs_one m e b).
+Proof.
+  revert t. induction a as [|[h c] r IH]; intros t; [reflexivity|].
+  cbn [app restore_refs_one].
+  destruct (if f_many (fd m h) then coll_extend_full m t (e, h) c else set_full m t (e, h) (KernelIO.hdv c)) as [[e0|] s1];
+    cbn [seq_outcome]; [reflexivity | apply IH].
+Qed.
+
+(* 3c. Delete of a leaf child x of p: x has no contents and no link but its container end; p.f holds x *)
+Section DeleteLeaf.
+Variable m : mm.
+Variables f g : fid.
+Hypothesis HP : ce_pair m f g.
+Variables x p : oid.
+
+Record leaf (s : state) : Prop := {
+  lf_neq : p <> x;
+  lf_g : vals s (x, g) = [VObj p];
+  lf_in : In (VObj x) (vals s (p, f));
+  lf_sing : f_many (fd m f) = false -> vals s (p, f) = [VObj x];
+  lf_nd : nodup_objs (vals s (p, f));
+  lf_cont : cont s x = Some (p, f);
+  lf_nr : not_root s x;
+  lf_ck : check_single m g (VObj p) = true;
+  lf_app : In g (ref_feats m x);
+  (* every other reference of x is empty *)
+  lf_empty : forall h, In h (ref_feats m x) -> h <> g -> empty_cell m s x h;
+  (* no holder is recorded in x's inverse set (references with an opposite are not recorded there) *)
+  lf_inv : inv s x = []
+}.
+
+Lemma leaf_econtents s : leaf s -> econtents m s x = [].
+Proof.
+  intros L. unfold econtents.
+  assert (H : forall h, In h (ref_feats m x) -> (if f_cont (fd m h) then objs_of (vals s (x, h)) else []) = []).
+  { intros h Hh. destruct (Nat.eq_dec h g) as [->|N]; [rewrite (ce_cont_g m f g HP); reflexivity|].
+    pose proof (lf_empty s L h Hh N) as E. unfold empty_cell in E. rewrite E.
+    destruct (f_cont (fd m h)); [|reflexivity]. destruct (f_many (fd m h)); reflexivity. }
+  induction (ref_feats m x) as [|a r IH]; [reflexivity|]. cbn [flat_map].
+  rewrite (H a (or_introl eq_refl)). cbn [app]. apply IH. intros h Hh. apply H. right. exact Hh.
+Qed.
+
+Lemma leaf_split s : leaf s ->
+  exists l1 l2, ref_feats m x = l1 ++ g :: l2 /\
+                (forall h, In h l1 -> In h (ref_feats m x) /\ h <> g) /\
+                (forall h, In h l2 -> In h (ref_feats m x) /\ h <> g).
+Proof.
+  intros L. destruct (in_split g _ (lf_app s L)) as (l1 & l2 & E). exists l1, l2. split; [exact E|].
+  pose proof (C19Once.ref_feats_NoDup m x) as ND. rewrite E in ND. apply NoDup_remove_2 in ND.
+  split; intros h Hh; (split; [rewrite E; apply in_or_app; simpl; tauto|]); intros ->; apply ND; apply in_or_app; tauto.
+Qed.
+
+(* the state after x.delete(): exactly as after Remove(p.f, x) *)
+Lemma leaf_delete_state fuel s :
+  leaf s -> cc2 s (delete_obj (S fuel) m s x true) p f (lessx m f x (vals s (p, f))) x g [VNone] None.
+Proof.
+  intros L. cbn [delete_obj]. rewrite (leaf_econtents s L). cbn [fold_left]. rewrite (lf_inv s L). cbn [filter].
+  rewrite app_nil_r. destruct (leaf_split s L) as (l1 & l2 & E & H1 & H2). rewrite E, map_app, fold_left_app.
+  cbn [map fold_left].
+  match goal with |- context [delete_step m x ?T (x, g)] => set (t1 := T) end.
+  assert (O1 : obs_eq t1 s).
+  { apply fold_own_empty. intros h Hh. destruct (H1 h Hh) as [A B]. exact (lf_empty s L h A B). }
+  pose proof O1 as (V1 & _).
+  assert (D : exists t2, delete_step m x t1 (x, g) = t2 /\ cc2 t1 t2 p f (lessx m f x (vals t1 (p, f))) x g [VNone] None).
+  { unfold delete_step. rewrite (ce_single_g m f g HP), Nat.eqb_refl, orb_true_r.
+    destruct (unset_container_end m f g HP t1 x p) as (t2 & E2 & CC).
+    - rewrite V1. exact (lf_g s L).
+    - rewrite V1. exact (lf_in s L).
+    - intros M. rewrite V1. exact (lf_sing s L M).
+    - exists t2. rewrite E2. split; [reflexivity | exact CC]. }
+  destruct D as (t2 & E2 & CC). rewrite E2. rewrite (V1 (p, f)) in CC.
+  apply (cc2_obs_r s t2). { exact (cc2_obs_l t1 s t2 _ _ _ _ _ _ _ O1 CC). }
+  apply fold_own_empty. intros h Hh. destruct (H2 h Hh) as [A B].
+  unfold empty_cell. rewrite (proj1 CC).
+  rewrite upd_other by (intros E0; inversion E0; exact (lf_neq s L ltac:(assumption))).
+  rewrite upd_other by (intros E0; inversion E0; congruence).
+  rewrite V1. exact (lf_empty s L h A B).
+Qed.
+
+(* the command Delete.do_execute records *)
+Lemma leaf_do_delete s :
+  leaf s ->
+  do_delete m s x = ((None, delete_obj (S (length (ocls m))) m s x true),
+                     CDelete x [(x, map (fun h => (h, vals s (x, h))) (ref_feats m x))] [(x, [])]).
+Proof.
+  intros L. unfold do_delete, delete_elements. cbn [eallcontents]. rewrite (leaf_econtents s L). cbn [app flat_map].
+  cbn [snap_invs]. rewrite (lf_inv s L). cbn [snap_inv_one bindr]. reflexivity.
+Qed.
+
+(* undo: the first loop sets x's references again - all empty but the container end, whose setter appends x to
+   p.f (or stores it in the slot p.f); the second loop has nothing to do *)
+Theorem leaf_delete_undo s :
+  leaf s ->
+  let s' := delete_obj (S (length (ocls m))) m s x true in
+  let c' := CDelete x [(x, map (fun h => (h, vals s (x, h))) (ref_feats m x))] [(x, [])] in
+  execute m s (CDelete x [] []) = ((None, s'), c') /\
+  cc2 s s' p f (lessx m f x (vals s (p, f))) x g [VNone] None /\
+  forall t, obs_eq t s' ->
+    can_undo m t c' = Ok true /\
+    exists t', undo m t c' = ((None, t'), c') /\
+               cc2 s t' p f (plusx m f x (lessx m f x (vals s (p, f)))) x g (vals s (x, g)) (cont s x).
+Proof.
+  intros L s' c'. split; [exact (leaf_do_delete s L)|].
+  pose proof (leaf_delete_state (length (ocls m)) s L) as CC. fold s' in CC. split; [exact CC|].
+  intros t Ht. split; [reflexivity|]. unfold c'. cbn [undo restore_refs restore_invs restore_invs_one].
+  destruct (leaf_split s L) as (l1 & l2 & E & H1 & H2). rewrite E, map_app, restore_refs_one_app. cbn [map].
+  pose proof Ht as (Vt & Ct & Et & Rt).
+  assert (Nxp : forall h : fid, ((p, f) : cell) <> (x, h)) by (intros h E0; inversion E0; exact (lf_neq s L ltac:(assumption))).
+  (* the slots of x other than the container end are as in s, in every state that agrees with s' there *)
+  assert (Emp : forall u, (forall k, k <> (p, f) -> k <> (x, g) -> vals u k = vals s k) ->
+                     forall h, In h (ref_feats m x) -> h <> g -> empty_cell m u x h).
+  { intros u Hu h A B. unfold empty_cell. rewrite Hu; [exact (lf_empty s L h A B) | |].
+    - intros E0. exact (Nxp h (eq_sym E0)).
+    - intros E0. inversion E0. contradiction. }
+  assert (Fr' : forall k, k <> (p, f) -> k <> (x, g) -> vals t k = vals s k).
+  { intros k N1 N2. rewrite Vt, (proj1 CC). rewrite upd_other by (intros E0; apply N1; symmetry; exact E0).
+    apply upd_other. intros E0; apply N2; symmetry; exact E0. }
+  destruct (restore_own_empty m x (vals s) l1 t) as (t1 & E1 & O1).
+  { intros h Hh. destruct (H1 h Hh) as [A B]. exact (lf_empty s L h A B). }
+  { intros h Hh. destruct (H1 h Hh) as [A B]. exact (Emp t Fr' h A B). }
+  rewrite E1. cbn [seq_outcome restore_refs_one]. rewrite (ce_single_g m f g HP), (lf_g s L). cbn [KernelIO.hdv].
+  pose proof O1 as (V1 & C1 & Er1 & R1).
+  assert (N2 : ((p, f) : cell) <> (x, g)) by exact (ce_cells m f g p x HP).
+  assert (Vpf : vals t1 (p, f) = lessx m f x (vals s (p, f))).
+  { rewrite V1, Vt. exact (cc2_vals_x _ _ _ _ _ _ _ _ _ CC). }
+  destruct (set_container_end m f g HP t1 x p) as (t2 & E2 & CC2).
+  - rewrite V1, Vt. exact (cc2_vals_y _ _ _ _ _ _ _ _ _ N2 CC).
+  - assert (Cx : cont t1 x = None) by (rewrite C1, Ct; exact (cc2_cont _ _ _ _ _ _ _ _ _ CC)).
+    split; [exact Cx|]. unfold eresource_of. cbn [root_of]. rewrite Cx.
+    destruct CC as (_ & _ & Es & Rs). rewrite Er1, Et, Es. pose proof (lf_nr s L) as Hnr. unfold not_root in Hnr.
+    destruct (eres s x) as [r|]; [rewrite R1, Rt, Rs; exact Hnr | exact I].
+  - exact (lf_ck s L).
+  - intros M. rewrite Vpf. unfold lessx. rewrite M. reflexivity.
+  - intros M _. rewrite Vpf. unfold lessx. rewrite M. intros Hin.
+    exact (C07Full.raw_remove_obj_neq _ x x (lf_nd s L) Hin eq_refl).
+  - rewrite E2. cbn [seq_outcome].
+    assert (Fr2 : forall k, k <> (p, f) -> k <> (x, g) -> vals t2 k = vals s k).
+    { intros k N1 N3. rewrite (proj1 CC2). rewrite upd_other by (intros E0; apply N1; symmetry; exact E0).
+      rewrite upd_other by (intros E0; apply N3; symmetry; exact E0). rewrite V1. apply Fr'; assumption. }
+    destruct (restore_own_empty m x (vals s) l2 t2) as (t3 & E3 & O3).
+    { intros h Hh. destruct (H2 h Hh) as [A B]. exact (lf_empty s L h A B). }
+    { intros h Hh. destruct (H2 h Hh) as [A B]. exact (Emp t2 Fr2 h A B). }
+    rewrite E3. cbn [seq_outcome]. exists t3. split; [reflexivity|].
+    apply (cc2_obs_r s t2 t3); [|exact O3].
+    rewrite Vpf in CC2. rewrite (lf_cont s L).
+    destruct CC2 as (V2 & C2 & Er2 & R2). destruct CC as (Vs & Cs & Es & Rs).
+    repeat split; intros.
+    + rewrite V2. unfold upd. destruct (cell_eqb_spec (p, f) k') as [_|Na]; [reflexivity|].
+      destruct (cell_eqb_spec (x, g) k') as [_|Nb]; [reflexivity|].
+      rewrite V1. apply Fr'; intros E0; [apply Na | apply Nb]; symmetry; exact E0.
+    + rewrite C2. unfold updn. destruct (Nat.eqb_spec x o) as [_|Nx]; [reflexivity|].
+      rewrite C1, Ct, Cs. unfold updn. destruct (Nat.eqb_spec x o); [contradiction | reflexivity].
+    + rewrite Er2, Er1, Et, Es. reflexivity.
+    + rewrite R2, R1, Rt, Rs. reflexivity.
+Qed.
+
+End DeleteLeaf.
+
+(* members of a collection after `remove x; append x` *)
+Lemma raw_remove_readd x l :
+  In (VObj x) l -> forall w, In w (raw_remove (VObj x) l ++ [VObj x]) <-> In w l.
+Proof.
+  unfold raw_remove. induction l as [|a r IH]; intros Hin w; [destruct Hin|].
+  cbn [remove_first]. destruct (veqb a (VObj x)) eqn:E.
+  - apply veqb_obj_r in E. subst a. rewrite in_app_iff. simpl. tauto.
+  - destruct Hin as [Ha|Hin]; [subst a; rewrite C06Proofs.veqb_refl in E; discriminate|].
+    specialize (IH Hin w). destruct (remove_first veqb (VObj x) r) as [r'|].
+    + cbn [app In]. rewrite IH. simpl. tauto.
+    + cbn [app In] in *. rewrite in_app_iff in *. simpl in *. tauto.
+Qed.
+
+Section DeleteLeafCor.
+Variable m : mm.
+Variables f g : fid.
+Hypothesis HP : ce_pair m f g.
+Variables x p : oid.
+
+(* every value is back, p.f up to the position of x (now last); containers and resources are back *)
+Theorem leaf_delete_undo_members s :
+  leaf m f g x p s ->
+  exists s' c', execute m s (CDelete x [] []) = ((None, s'), c') /\
+    forall t, obs_eq t s' ->
+      can_undo m t c' = Ok true /\
+      exists t', undo m t c' = ((None, t'), c') /\
+                 (forall k, k <> (p, f) -> vals t' k = vals s k) /\
+                 (forall w, In w (vals t' (p, f)) <-> In w (vals s (p, f))) /\
+                 (f_many (fd m f) = true -> lastv (VObj x) (vals t' (p, f))) /\
+                 (forall o, cont t' o = cont s o) /\ (forall o, eres t' o = eres s o) /\
+                 (forall r, rcont t' r = rcont s r).
+Proof.
+  intros L. destruct (leaf_delete_undo m f g HP x p s L) as (E & _ & U).
+  eexists. eexists. split; [exact E|]. intros t Ht. destruct (U t Ht) as (CU & t' & Eu & (V & C & Er & R)).
+  split; [exact CU|]. exists t'. split; [exact Eu|].
+  assert (N2 : ((p, f) : cell) <> (x, g)) by exact (ce_cells m f g p x HP).
+  assert (Vpf : vals t' (p, f) = plusx m f x (lessx m f x (vals s (p, f)))) by (rewrite V; apply upd_same).
+  repeat split.
+  - intros k N. rewrite V. rewrite upd_other by (intros E0; apply N; symmetry; exact E0).
+    unfold upd. destruct (cell_eqb_spec (x, g) k) as [<-|_]; reflexivity.
+  - rewrite Vpf. unfold plusx, lessx. destruct (f_many (fd m f)) eqn:M.
+    + apply (proj1 (raw_remove_readd x _ (lf_in m f g x p s L) w)).
+    + rewrite (lf_sing m f g x p s L M). tauto.
+  - rewrite Vpf. unfold plusx, lessx. destruct (f_many (fd m f)) eqn:M.
+    + apply (proj2 (raw_remove_readd x _ (lf_in m f g x p s L) w)).
+    + rewrite (lf_sing m f g x p s L M). tauto.
+  - intros M. rewrite Vpf. unfold plusx. rewrite M. eexists. reflexivity.
+  - intros o. rewrite C. unfold updn. destruct (Nat.eqb_spec x o) as [<-|]; reflexivity.
+  - exact Er.
+  - exact R.
+Qed.
+
+(* exact when x was the last child (or p.f is single-valued): the whole observable state is back *)
+Theorem leaf_delete_undo_exact s :
+  leaf m f g x p s -> (f_many (fd m f) = true -> lastv (VObj x) (vals s (p, f))) ->
+  exists s' c', execute m s (CDelete x [] []) = ((None, s'), c') /\
+    forall t, obs_eq t s' ->
+      can_undo m t c' = Ok true /\ exists t', undo m t c' = ((None, t'), c') /\ obs_eq t' s.
+Proof.
+  intros L Hlast. destruct (leaf_delete_undo m f g HP x p s L) as (E & _ & U).
+  eexists. eexists. split; [exact E|]. intros t Ht. destruct (U t Ht) as (CU & t' & Eu & (V & C & Er & R)).
+  split; [exact CU|]. exists t'. split; [exact Eu|].
+  assert (Back : plusx m f x (lessx m f x (vals s (p, f))) = vals s (p, f)).
+  { unfold plusx, lessx. destruct (f_many (fd m f)) eqn:M; [|symmetry; exact (lf_sing m f g x p s L M)].
+    destruct (Hlast eq_refl) as (l0 & El). rewrite El.
+    rewrite rr_app_last; [reflexivity|]. apply nodup_objs_app_last. rewrite <- El. exact (lf_nd m f g x p s L). }
+  repeat split; intros.
+  - rewrite V, Back. unfold upd. destruct (cell_eqb_spec (p, f) k) as [<-|_]; [reflexivity|].
+    destruct (cell_eqb_spec (x, g) k) as [<-|_]; reflexivity.
+  - rewrite C. unfold updn. destruct (Nat.eqb_spec x o) as [<-|]; reflexivity.
+  - apply Er.
+  - apply R.
+Qed.
+
+End DeleteLeafCor.
+
+Lemma nodup_objs_readd x l : nodup_objs l -> In (VObj x) l -> nodup_objs (raw_remove (VObj x) l ++ [VObj x]).
+Proof.
+  intros ND Hin. destruct (raw_remove_obj_In x l ND Hin) as [Hm ND']. unfold nodup_objs in *.
+  rewrite objs_of_app. cbn [objs_of]. apply C19Once.NoDup_app_intro; [exact ND' | constructor; [intros [] | constructor] |].
+  intros y Hy [E|[]]. subst y. apply objs_of_In in Hy. apply Hm in Hy. tauto.
+Qed.
+
+Section DeleteLeafRedo.
+Variable m : mm.
+Variables f g : fid.
+Hypothesis HP : ce_pair m f g.
+Variables x p : oid.
+
+Lemma lessx_plusx s :
+  leaf m f g x p s -> lessx m f x (plusx m f x (lessx m f x (vals s (p, f)))) = lessx m f x (vals s (p, f)).
+Proof.
+  intros L. unfold lessx, plusx. destruct (f_many (fd m f)); [|reflexivity].
+  apply rr_app_last. intros Hin. exact (C07Full.raw_remove_obj_neq _ x x (lf_nd m f g x p s L) Hin eq_refl).
+Qed.
+
+(* the state Delete.undo leaves is again a leaf situation, provided x's inverse set is still empty there *)
+Lemma leaf_after_undo s t :
+  leaf m f g x p s ->
+  cc2 s t p f (plusx m f x (lessx m f x (vals s (p, f)))) x g (vals s (x, g)) (cont s x) ->
+  inv t x = [] -> leaf m f g x p t.
+Proof.
+  intros L (V & C & Er & R) Hinv.
+  assert (N2 : ((p, f) : cell) <> (x, g)) by exact (ce_cells m f g p x HP).
+  assert (Vpf : vals t (p, f) = plusx m f x (lessx m f x (vals s (p, f)))) by (rewrite V; apply upd_same).
+  assert (Vxg : vals t (x, g) = vals s (x, g)) by (rewrite V, upd_other by exact N2; apply upd_same).
+  assert (Cx : cont t x = cont s x) by (rewrite C; unfold updn; rewrite Nat.eqb_refl; reflexivity).
+  constructor.
+  - exact (lf_neq m f g x p s L).
+  - rewrite Vxg. exact (lf_g m f g x p s L).
+  - rewrite Vpf. unfold plusx. destruct (f_many (fd m f)); [apply in_or_app; right|]; left; reflexivity.
+  - intros M. rewrite Vpf. unfold plusx. rewrite M. reflexivity.
+  - rewrite Vpf. unfold plusx, lessx. destruct (f_many (fd m f)) eqn:M.
+    + apply nodup_objs_readd; [exact (lf_nd m f g x p s L) | exact (lf_in m f g x p s L)].
+    + apply nodup_single.
+  - rewrite Cx. exact (lf_cont m f g x p s L).
+  - pose proof (lf_nr m f g x p s L) as Hn. unfold not_root in *. rewrite Er.
+    destruct (eres s x) as [r|]; [rewrite R; exact Hn | exact I].
+  - exact (lf_ck m f g x p s L).
+  - exact (lf_app m f g x p s L).
+  - intros h A B. unfold empty_cell. rewrite V.
+    rewrite upd_other by (intros E0; inversion E0; exact (lf_neq m f g x p s L ltac:(assumption))).
+    rewrite upd_other by (intros E0; inversion E0; congruence).
+    exact (lf_empty m f g x p s L h A B).
+  - exact Hinv.
+Qed.
+
+(* redo (Delete.do_execute again) from the state undo left: the state after the Delete, the same command *)
+Theorem leaf_delete_redo s t :
+  leaf m f g x p s ->
+  cc2 s t p f (plusx m f x (lessx m f x (vals s (p, f)))) x g (vals s (x, g)) (cont s x) ->
+  inv t x = [] ->
+  let s' := delete_obj (S (length (ocls m))) m s x true in
+  let c' := CDelete x [(x, map (fun h => (h, vals s (x, h))) (ref_feats m x))] [(x, [])] in
+  exists t', redo m t c' = ((None, t'), c') /\ obs_eq t' s'.
+Proof.
+  intros L CT Hinv s' c'. pose proof (leaf_after_undo s t L CT Hinv) as Lt.
+  exists (delete_obj (S (length (ocls m))) m t x true). split.
+  - unfold c'. cbn [redo]. rewrite (leaf_do_delete m f g HP x p t Lt). f_equal. f_equal. f_equal. f_equal.
+    apply map_ext_in. intros h Hh. f_equal. destruct CT as (V & _). rewrite V.
+    rewrite upd_other by (intros E0; inversion E0; exact (lf_neq m f g x p s L ltac:(assumption))).
+    unfold upd. destruct (cell_eqb_spec (x, g) (x, h)) as [E0|_]; [inversion E0; reflexivity | reflexivity].
+  - pose proof (leaf_delete_state m f g HP x p (length (ocls m)) t Lt) as (V2 & C2 & E2 & R2).
+    pose proof (leaf_delete_state m f g HP x p (length (ocls m)) s L) as (V1 & C1 & E1 & R1). fold s' in V1, C1, E1, R1.
+    destruct CT as (V & C & Er & R).
+    assert (Vpf : vals t (p, f) = plusx m f x (lessx m f x (vals s (p, f)))) by (rewrite V; apply upd_same).
+    repeat split; intros.
+    + rewrite V2, V1, Vpf, (lessx_plusx s L). unfold upd.
+      destruct (cell_eqb_spec (p, f) k) as [_|Na]; [reflexivity|].
+      destruct (cell_eqb_spec (x, g) k) as [_|Nb]; [reflexivity|].
+      rewrite V. rewrite !upd_other by assumption. reflexivity.
+    + rewrite C2, C1. unfold updn. destruct (Nat.eqb_spec x o) as [_|N]; [reflexivity|].
+      rewrite C. unfold updn. destruct (Nat.eqb_spec x o); [contradiction | reflexivity].
+    + rewrite E2, E1. apply Er.
+    + rewrite R2, R1. apply R.
+Qed.
+
+End DeleteLeafRedo.
+
+(* the leaf premises from the invariant K *)
+Lemma leaf_of_K m (W : wf_mm m) (f g : fid) (x p : oid) s :
+  K m s -> f_cont (fd m f) = true -> f_opp (fd m f) = Some g ->
+  In (VObj x) (vals s (p, f)) -> p <> x -> In g (ref_feats m x) ->
+  (forall h, In h (ref_feats m x) -> h <> g -> empty_cell m s x h) -> inv s x = [] ->
+  ce_pair m f g /\ leaf m f g x p s.
+Proof.
+  intros (HW & HT & HU) Hc Ho Hin Np Hg Hemp Hinv. pose proof (ce_pair_of_wf m f g W Hc Ho) as CP.
+  split; [exact CP|]. destruct (child_facts m s p f g x HW CP Hin) as (A & B & C).
+  constructor; try assumption.
+  - intros M. destruct (proj1 (wf_shape m s HW p f) M) as (v & Hv). rewrite Hv in Hin |- *.
+    destruct Hin as [<-|[]]. reflexivity.
+  - apply (proj2 (wf_shape m s HW p f)). right. exact Hc.
+  - pose proof (HT (x, g) (VObj p)) as Hk. rewrite C in Hk. specialize (Hk (or_introl eq_refl)).
+    unfold okv in Hk. cbn [snd] in Hk. rewrite (ce_single_g m f g CP) in Hk. exact Hk.
+Qed.
+
+(* ---------- non-vacuity and what is false, on Acyclic's tree metamodel (kids <-> parent) ---------- *)
+Definition ex_tree_s0 : state :=
+  fold_left (next Acyclic.ex_mm_tree) [OAppend 0 0 (VObj 1); OAppend 0 0 (VObj 2); OAppend 1 0 (VObj 3)]
+            (init_state Acyclic.ex_mm_tree).
+
+(* o2 is the LAST child of o0 and has neither contents nor other links: the premises of the leaf theorems hold *)
+Example ex_leaf_witness :
+  ce_pair Acyclic.ex_mm_tree 0 1 /\ leaf Acyclic.ex_mm_tree 0 1 2 0 ex_tree_s0 /\
+  lastv (VObj 2) (vals ex_tree_s0 (0, 0)).
+Proof.
+  split; [|split].
+  - apply (ce_pair_of_wf _ 0 1 (proj1 Acyclic.ex_mm_tree_wf)); reflexivity.
+  - constructor.
+    + discriminate.
+    + vm_compute. reflexivity.
+    + vm_compute. right. left. reflexivity.
+    + intros H. vm_compute in H. discriminate.
+    + unfold nodup_objs. vm_compute. repeat constructor; simpl; intuition discriminate.
+    + vm_compute. reflexivity.
+    + vm_compute. exact I.
+    + vm_compute. reflexivity.
+    + vm_compute. right. left. reflexivity.
+    + intros h Hh Nh. vm_compute in Hh. destruct Hh as [<-|[<-|[]]]; [vm_compute; reflexivity | contradiction].
+    + vm_compute. reflexivity.
+  - exists [VObj 1]. vm_compute. reflexivity.
+Qed.
+
+(* Delete(o2); undo; redo; undo on the model: everything back, o0.kids in its order *)
+Example ex_leaf_result :
+  let ms := st_run Acyclic.ex_mm_tree (ex_tree_s0, empty_stack) [SExec (CDelete 2 [] [])] in
+  vals (fst ms) (0, 0) = [VObj 1] /\ vals (fst ms) (2, 1) = [VNone] /\ cont (fst ms) 2 = None /\
+  let ms1 := st_run Acyclic.ex_mm_tree ms [SUndo] in
+  vals (fst ms1) (0, 0) = [VObj 1; VObj 2] /\ vals (fst ms1) (2, 1) = [VObj 0] /\ cont (fst ms1) 2 = Some (0, 0) /\
+  let ms2 := st_run Acyclic.ex_mm_tree ms1 [SRedo; SUndo] in
+  vals (fst ms2) (0, 0) = [VObj 1; VObj 2] /\ cont (fst ms2) 2 = Some (0, 0) /\ sidx (snd ms2) = (-1)%Z.
+Proof. vm_compute. repeat split; reflexivity. Qed.
+
+(* FALSE in general: the order of p.f.  kids is many-valued with a SINGLE-valued opposite, so the property
+   demands its order back; Delete(o1) (a middle child, with its own child o3), undo: o0.kids = [o2, o1].
+   The container end is re-set through its ordinary setter, which appends (F-C06-relink-order). *)
+Example delete_undo_child_order_refuted :
+  let ms := st_run Acyclic.ex_mm_tree (ex_tree_s0, empty_stack) [SExec (CDelete 1 [] []); SUndo] in
+  vals ex_tree_s0 (0, 0) = [VObj 1; VObj 2] /\ vals (fst ms) (0, 0) = [VObj 2; VObj 1] /\
+  vals (fst ms) (1, 0) = vals ex_tree_s0 (1, 0) /\ vals (fst ms) (1, 1) = vals ex_tree_s0 (1, 1) /\
+  vals (fst ms) (3, 1) = vals ex_tree_s0 (3, 1) /\
+  cont (fst ms) 1 = cont ex_tree_s0 1 /\ cont (fst ms) 3 = cont ex_tree_s0 3 /\ sidx (snd ms) = (-1)%Z.
+Proof. vm_compute. repeat split; reflexivity. Qed.
+
+(* ---------- Set on the container end, from the invariant ---------- *)
+Section LiftEnd.
+Variable m : mm.
+Hypothesis W : wf_mm m.
+
+Theorem set_end_link_undo_redo s (f g : fid) (x p : oid) p0 s' c' :
+  K m s -> f_cont (fd m f) = true -> f_opp (fd m f) = Some g ->
+  vals s (x, g) = [VNone] -> unowned m s x -> (f_many (fd m f) = false -> vals s (p, f) = [VNone]) ->
+  execute m s (CSet x g (VObj p) p0) = ((None, s'), c') ->
+  inverts m c' s s' /\ cc2 s s' p f (plusx m f x (vals s (p, f))) x g [VObj p] (Some (p, f)).
+Proof.
+  intros (HW & _) Hc Ho Hxg Hu Hfree HE. pose proof (ce_pair_of_wf m f g W Hc Ho) as CP.
+  apply (set_end_link_inverts m f g s x p p0 s' c' CP Hxg Hu Hfree); [|exact HE].
+  intros Hin. destruct (child_facts_plain m s p f x HW Hc Hin) as [A _]. destruct Hu as [Hu _]. congruence.
+Qed.
+
+Theorem set_end_unlink_undo_redo s (f g : fid) (x p : oid) p0 s' c' :
+  K m s -> f_cont (fd m f) = true -> f_opp (fd m f) = Some g ->
+  vals s (x, g) = [VObj p] -> (f_many (fd m f) = true -> lastv (VObj x) (vals s (p, f))) ->
+  execute m s (CSet x g VNone p0) = ((None, s'), c') ->
+  inverts m c' s s' /\ cc2 s s' p f (lessx m f x (vals s (p, f))) x g [VNone] None.
+Proof.
+  intros (HW & HT & _) Hc Ho Hxg Hlast HE. pose proof (ce_pair_of_wf m f g W Hc Ho) as CP.
+  assert (Hin : In (VObj x) (vals s (p, f))).
+  { apply (wf_sym m s HW g f (ce_opp_g m f g CP) x p). unfold C01Proofs.R. rewrite Hxg. left. reflexivity. }
+  destruct (child_facts m s p f g x HW CP Hin) as (A & B & _).
+  apply (set_end_unlink_inverts m f g s x p p0 s' c' CP Hxg Hin); try assumption.
+  - intros Mf. destruct (proj1 (wf_shape m s HW p f) Mf) as (w & Hw). rewrite Hw in Hin |- *.
+    destruct Hin as [<-|[]]. reflexivity.
+  - apply (proj2 (wf_shape m s HW p f)). right. exact Hc.
+  - pose proof (HT (x, g) (VObj p)) as Hk. rewrite Hxg in Hk. specialize (Hk (or_introl eq_refl)).
+    unfold okv in Hk. cbn [snd] in Hk. rewrite (ce_single_g m f g CP) in Hk. exact Hk.
+Qed.
+End LiftEnd.
+
+(* without `x is the last child`: o0.kids = [o1, o2]; Set(o1.parent, None); undo: o0.kids = [o2, o1] *)
+Example set_end_relink_refuted :
+  let s0 := fold_left (next Acyclic.ex_mm_tree) [OAppend 0 0 (VObj 1); OAppend 0 0 (VObj 2)] (init_state Acyclic.ex_mm_tree) in
+  let ms := st_run Acyclic.ex_mm_tree (s0, empty_stack) [SExec (CSet 1 1 VNone VNone); SUndo] in
+  vals s0 (0, 0) = [VObj 1; VObj 2] /\ vals (fst ms) (0, 0) = [VObj 2; VObj 1] /\
+  vals (fst ms) (1, 1) = vals s0 (1, 1) /\ cont (fst ms) 1 = cont s0 1.
+Proof. vm_compute. repeat split; reflexivity. Qed.
+
+(* forward direction, recorded command and redo in one statement *)
+Theorem leaf_delete_execute_redo m f g (HP : ce_pair m f g) (x p : oid) s :
+  leaf m f g x p s ->
+  let s' := delete_obj (S (length (ocls m))) m s x true in
+  let c' := CDelete x [(x, map (fun h => (h, vals s (x, h))) (ref_feats m x))] [(x, [])] in
+  execute m s (CDelete x [] []) = ((None, s'), c') /\
+  cc2 s s' p f (lessx m f x (vals s (p, f))) x g [VNone] None /\
+  forall t,
+    cc2 s t p f (plusx m f x (lessx m f x (vals s (p, f)))) x g (vals s (x, g)) (cont s x) ->
+    inv t x = [] ->
+    exists t', redo m t c' = ((None, t'), c') /\ obs_eq t' s'.
+Proof.
+  intros L s' c'. destruct (leaf_delete_undo m f g HP x p s L) as (A & B & _).
+  split; [exact A|]. split; [exact B|]. intros t CT Hi. exact (leaf_delete_redo m f g HP x p s t L CT Hi).
+Qed.
+
+(* ---------- non-vacuity for Move on a containment collection (Acyclic's tree metamodel) ---------- *)
+Lemma ex_tree_premises :
+  wf_mm Acyclic.ex_mm_tree /\ ref_typed Acyclic.ex_mm_tree /\ K Acyclic.ex_mm_tree (init_state Acyclic.ex_mm_tree).
+Proof.
+  destruct Acyclic.ex_mm_tree_wf as [W D]. split; [exact W|]. split; [|split; [|split]].
+  - intros f. Acyclic.tcase f; intros H; try discriminate; eexists; reflexivity.
+  - exact (WF_init Acyclic.ex_mm_tree W D).
+  - apply typed_init. intros f. Acyclic.tcase f; intros; reflexivity.
+  - intros x f R M _. exfalso. revert R M. Acyclic.tcase f; intros; discriminate.
+Qed.
+
+(* three children, the first one moved to the end by index, the child o3 moved to the front by value *)
+Definition ex_move_word : list sop :=
+  [SExec (CAdd 0 0 (VObj 1) None); SExec (CAdd 0 0 (VObj 2) None); SExec (CAdd 0 0 (VObj 3) None);
+   SExec (CMove 0 0 VNone (Some 0%Z) 2%Z); SExec (CMove 0 0 (VObj 3) None 0%Z); SUndo; SUndo; SRedo].
+
+Lemma ex_move_word_ok :
+  run_ok Acyclic.ex_mm_tree (covered4 Acyclic.ex_mm_tree) (init_state Acyclic.ex_mm_tree, [], []) ex_move_word.
+Proof.
+  assert (T : opp_typed Acyclic.ex_mm_tree 0 0) by (intros g H; inversion H; reflexivity).
+  unfold ex_move_word. cbn [run_ok gop_ok fst].
+  split. { right; left. exists 1. split; [reflexivity|]. split; [reflexivity|]. split; [reflexivity|]. split; [unown | exact T]. }
+  split. { right; left. exists 2. split; [reflexivity|]. split; [reflexivity|]. split; [reflexivity|]. split; [unown | exact T]. }
+  split. { right; left. exists 3. split; [reflexivity|]. split; [reflexivity|]. split; [reflexivity|]. split; [unown | exact T]. }
+  split. { right; left. split; [reflexivity|]. split; [reflexivity|]. left. reflexivity. }
+  split. { right; left. split; [reflexivity|]. split; [reflexivity|]. right. reflexivity. }
+  repeat split.
+Qed.
+
+Example ex_move_word_result :
+  let ms := st_run Acyclic.ex_mm_tree (init_state Acyclic.ex_mm_tree, empty_stack) ex_move_word in
+  vals (fst ms) (0, 0) = [VObj 2; VObj 3; VObj 1] /\ cont (fst ms) 1 = Some (0, 0) /\ vals (fst ms) (1, 1) = [VObj 0] /\
+  sidx (snd ms) = 3%Z /\
+  let ms1 := st_run Acyclic.ex_mm_tree ms [SRedo] in
+  vals (fst ms1) (0, 0) = [VObj 3; VObj 2; VObj 1] /\ vals (fst ms1) (3, 1) = [VObj 0] /\ cont (fst ms1) 3 = Some (0, 0) /\
+  let ms2 := st_run Acyclic.ex_mm_tree ms [SUndo] in
+  vals (fst ms2) (0, 0) = [VObj 1; VObj 2; VObj 3] /\
+  let ms3 := st_run Acyclic.ex_mm_tree ms1 (repeat SUndo 5 ++ repeat SRedo 5) in
+  vals (fst ms3) (0, 0) = [VObj 3; VObj 2; VObj 1] /\ sidx (snd ms3) = 4%Z.
+Proof. vm_compute. repeat split; reflexivity. Qed.
+
+(* ====================================================================== *)
+(* 6. Collections of references without containment and without opposite   *)
+(* ====================================================================== *)
+(* Add / Remove / Move on such a collection behave, observably, like on an attribute collection: only the
+   slot changes (the inverse bookkeeping of the elements is not observable). *)
+Definition loose (m : mm) (f : fid) : Prop :=
+  f_many (fd m f) = true /\ f_cont (fd m f) = false /\ f_opp (fd m f) = None.
+
+Lemma coll_add_loose_ok m s (x : oid) (f : fid) pos v :
+  f_cont (fd m f) = false -> f_opp (fd m f) = None -> check_elem m f v = true ->
+  exists s', coll_add_full m s (x, f) pos v = (None, s') /\
+             obs4 s' = (upd (vals s) (x, f)
+                            (match pos with
+                             | Some i => raw_insert (f_unique (fd m f)) i v (vals s (x, f))
+                             | None => raw_append (f_unique (fd m f)) v (vals s (x, f))
+                             end), cont s, eres s, rcont s).
+Proof.
+  intros Hc Ho C. unfold coll_add_full, link_elem. rewrite C. cbn [negb].
+  destruct (f_isref (fd m f)); [destruct (obj_of v) as [y|]|]; try (eexists; split; reflexivity).
+  unfold update_container. rewrite Hc. cbn [negb]. unfold update_opposite_add. rewrite Ho.
+  eexists. split; [reflexivity|]. unfold inv_add. destruct (cmem (x, f) (inv s y)); reflexivity.
+Qed.
+
+Lemma coll_pop_loose_ok m s (x : oid) (f : fid) i w l' :
+  f_cont (fd m f) = false -> f_opp (fd m f) = None -> py_pop i (vals s (x, f)) = Some (w, l') ->
+  exists s', coll_pop_full m s (x, f) i = ((None, s'), Some w) /\
+             obs4 s' = (upd (vals s) (x, f) l', cont s, eres s, rcont s).
+Proof.
+  intros Hc Ho P. unfold coll_pop_full, unlink_elem.
+  destruct (vals s (x, f)) as [|y ys] eqn:E; [rewrite py_pop_nil in P; discriminate|].
+  rewrite P. destruct (f_isref (fd m f)); [destruct (obj_of w) as [b|]|]; try (eexists; split; reflexivity).
+  unfold uc_clear. rewrite Hc. unfold update_opposite_remove. rewrite Ho.
+  eexists. split; [reflexivity|].
+  match goal with |- context [cmem ?c ?l] => destruct (cmem c l) end;
+    [reflexivity | unfold inv_add; match goal with |- context [cmem ?c ?l] => destruct (cmem c l) end; reflexivity].
+Qed.
+
+Section LooseColl.
+Variable m : mm.
+Variable f : fid.
+Hypothesis HL : loose m f.
+Let M := proj1 HL.
+Let Hc := proj1 (proj2 HL).
+Let Ho := proj2 (proj2 HL).
+
+Lemma add_loose_inverts s (x : oid) v idx c1 s' c' :
+  cell_wt m f (vals s (x, f)) ->
+  can_execute m s (CAdd x f v idx) = (Ok true, c1) ->
+  execute m s c1 = ((None, s'), c') ->
+  exists i', c' = CAdd x f v (Some i') /\
+             inverts m c' s s' /\ only_cell s s' (x, f) (py_insert i' v (vals s (x, f))) /\
+             cell_wt m f (py_insert i' v (vals s (x, f))).
+Proof.
+  intros W HC HE. set (l := vals s (x, f)) in *.
+  cbn [can_execute] in HC. destruct (negb (base_can m x f)); [discriminate|]. rewrite M in HC. cbn [negb] in HC.
+  apply pair_eq_inv in HC. destruct HC as [HB Hc1]. subst c1.
+  injection HB as HB. apply andb_true_iff in HB. destruct HB as [_ HU]. apply negb_true_iff in HU. fold l in HU.
+  assert (Abs : f_unique (fd m f) = true -> vmem v l = false).
+  { intros U. rewrite U in HU. exact HU. }
+  unfold cell_wt in W. rewrite M in W. destruct W as [Wc Wn].
+  assert (EX : exists pos i', (0 <= i' <= zlen l)%Z /\ c' = CAdd x f v (Some i') /\
+                              coll_add_full m s (x, f) pos v = (None, s') /\
+                              match pos with
+                              | Some i => raw_insert (f_unique (fd m f)) i v l
+                              | None => raw_append (f_unique (fd m f)) v l end = py_insert i' v l).
+  { cbn [execute] in HE. destruct idx as [i|]; apply pair_eq_inv in HE; destruct HE as [H1 H2].
+    - exists (Some (ins_pos (zlen l) i)), (ins_pos (zlen l) i). split; [apply clamp_index_range, zlen_nonneg|].
+      split; [symmetry; exact H2|]. split; [exact H1 | apply raw_insert_absent; exact Abs].
+    - exists None, (zlen l). split; [pose proof (zlen_nonneg l); lia|]. split; [symmetry; exact H2|].
+      split; [exact H1|]. rewrite (raw_append_absent _ _ _ Abs), py_insert_len. reflexivity. }
+  destruct EX as (pos & i' & Ri & Ec & Ea & El). exists i'. split; [exact Ec|].
+  destruct (check_elem m f v) eqn:Cv.
+  2:{ rewrite (coll_add_bad m s (x, f) pos v Cv) in Ea. discriminate. }
+  destruct (coll_add_loose_ok m s x f pos v Hc Ho Cv) as (s1 & E1 & O1).
+  rewrite E1 in Ea. inversion Ea; subst s1. clear Ea E1. fold l in O1. rewrite El in O1.
+  assert (OC : only_cell s s' (x, f) (py_insert i' v l)) by (apply obs4_only_cell; exact O1).
+  assert (CW : cell_wt m f (py_insert i' v l)).
+  { unfold cell_wt. rewrite M. split.
+    - intros y Hy. apply py_insert_In in Hy. destruct Hy as [Hy|Hy]; [subst; exact Cv | apply Wc; exact Hy].
+    - intros U. unfold py_insert. apply nodupv_insert_at; [apply Wn; exact U | apply Abs; exact U]. }
+  split; [|split; [exact OC | exact CW]].
+  subst c'. split.
+  - intros t Ht. pose proof Ht as (Vt & _). cbn [can_undo undo idx_or0].
+    rewrite (Vt (x, f)), (only_cell_vals _ _ _ _ OC).
+    split; [f_equal; apply vmem_In; apply py_insert_In; left; reflexivity|].
+    assert (Pp : py_pop i' (vals t (x, f)) = Some (v, l)).
+    { rewrite (Vt (x, f)), (only_cell_vals _ _ _ _ OC). apply py_pop_insert. exact Ri. }
+    destruct (coll_pop_loose_ok m t x f i' v l Hc Ho Pp) as (t' & Et & Ot).
+    exists t'. rewrite Et. split; [reflexivity|].
+    apply (only_cell_back s s' t t' (x, f) _ OC Ht). apply obs4_only_cell. exact Ot.
+  - intros t Ht. pose proof Ht as (Vt & _). cbn [redo idx_or0].
+    destruct (coll_add_loose_ok m t x f (Some i') v Hc Ho Cv) as (t' & Et & Ot).
+    exists t'. rewrite Et. split; [reflexivity|].
+    apply (only_cell_again s s' t t' (x, f) _ OC Ht). apply obs4_only_cell.
+    rewrite (Vt (x, f)) in Ot. fold l in Ot. rewrite (raw_insert_absent _ _ _ _ Abs) in Ot. exact Ot.
+Qed.
+
+Lemma remove_loose_inverts s (x : oid) v idx c1 s' c' :
+  cell_wt m f (vals s (x, f)) ->
+  can_execute m s (CRemove x f v idx) = (Ok true, c1) ->
+  execute m s c1 = ((None, s'), c') ->
+  exists i w l2, c' = CRemove x f w (Some i) /\
+                 inverts m c' s s' /\ only_cell s s' (x, f) l2 /\ cell_wt m f l2.
+Proof.
+  intros W HC HE. set (l := vals s (x, f)) in *.
+  unfold cell_wt in W. rewrite M in W. destruct W as [Wc Wn].
+  cbn [can_execute] in HC. destruct (negb (base_can m x f)); [discriminate|]. rewrite M in HC. cbn [negb] in HC.
+  assert (EX : exists i v1, (0 <= i)%Z /\
+            (let '(o, w) := coll_pop_full m s (x, f) i in
+             (o, CRemove x f (match w with Some w' => w' | None => v1 end) (Some i))) = ((None, s'), c')).
+  { destruct idx as [i0|].
+    - fold l in HC. destruct (py_get i0 l) as [w0|] eqn:G; [|apply pair_eq_inv in HC; destruct HC; discriminate].
+      apply pair_eq_inv in HC. destruct HC as [_ Hc1]. subst c1. cbn [execute] in HE. fold l in HE.
+      destruct (py_get_norm i0 l w0 G) as (k & N & _).
+      rewrite (norm_index_neg_shift _ _ _ N) in HE. exists k, w0. split; [|exact HE].
+      apply norm_index_range in N. lia.
+    - apply pair_eq_inv in HC. destruct HC as [_ Hc1]. subst c1. cbn [execute] in HE. fold l in HE.
+      destruct (index_of veqb v l) as [n|]; [|apply pair_eq_inv in HE; destruct HE; discriminate].
+      exists (Z.of_nat n), v. split; [lia | exact HE]. }
+  destruct EX as (i & v1 & Hi & HE2). clear HE HC.
+  destruct (coll_pop_full m s (x, f) i) as [[[e|] s1] w] eqn:EP;
+    apply pair_eq_inv in HE2; destruct HE2 as [H1 H2]; [discriminate|].
+  inversion H1; subst s1. clear H1.
+  destruct (pop_full_inv m s x f i s' w EP) as (w' & l2 & Pp & Ew). subst w. fold l in Pp.
+  destruct (coll_pop_loose_ok m s x f i w' l2 Hc Ho Pp) as (s2 & E2 & O2).
+  rewrite EP in E2. inversion E2; subst s2. clear E2.
+  assert (OC : only_cell s s' (x, f) l2) by (apply obs4_only_cell; exact O2).
+  destruct (py_pop_nonneg i l w' l2 Hi Pp) as (Hlt & Nth & El2).
+  assert (Cw : check_elem m f w' = true) by (apply Wc; eapply nth_error_In; exact Nth).
+  assert (Abs : f_unique (fd m f) = true -> vmem w' l2 = false).
+  { intros U. subst l2. apply nodupv_removed_notin; [apply Wn; exact U | exact Nth]. }
+  assert (CW : cell_wt m f l2).
+  { unfold cell_wt. rewrite M. split.
+    - intros y Hy. apply Wc. subst l2. eapply remove_at_In; exact Hy.
+    - intros U. subst l2. apply nodupv_remove_at. apply Wn; exact U. }
+  exists i, w', l2. split; [symmetry; exact H2|]. split; [|split; [exact OC | exact CW]].
+  subst c'. split.
+  - intros t Ht. pose proof Ht as (Vt & _). split; [reflexivity|]. cbn [undo idx_or0].
+    destruct (coll_add_loose_ok m t x f (Some i) w' Hc Ho Cw) as (t' & Et & Ot).
+    exists t'. rewrite Et. split; [reflexivity|].
+    apply (only_cell_back s s' t t' (x, f) _ OC Ht). apply obs4_only_cell.
+    rewrite (Vt (x, f)), (only_cell_vals _ _ _ _ OC) in Ot.
+    rewrite (raw_insert_absent _ _ _ _ Abs), (py_insert_pop i l w' l2 Hi Pp) in Ot. exact Ot.
+  - intros t Ht. pose proof Ht as (Vt & _). cbn [redo idx_or0].
+    assert (Pt : py_pop i (vals t (x, f)) = Some (w', l2)) by (rewrite (Vt (x, f)); exact Pp).
+    destruct (coll_pop_loose_ok m t x f i w' l2 Hc Ho Pt) as (t' & Et & Ot).
+    exists t'. rewrite Et. split; [reflexivity|].
+    apply (only_cell_again s s' t t' (x, f) _ OC Ht). apply obs4_only_cell. exact Ot.
+Qed.
+
+End LooseColl.
+
+Lemma pop_add_loose m (f : fid) (x : oid) :
+  f_cont (fd m f) = false -> f_opp (fd m f) = None ->
+  forall t i w l1 j,
+    py_pop i (vals t (x, f)) = Some (w, l1) -> check_elem m f w = true ->
+    (f_unique (fd m f) = true -> vmem w l1 = false) ->
+    exists t1, coll_pop_full m t (x, f) i = ((None, t1), Some w) /\ vals t1 (x, f) = l1 /\
+    exists t2, coll_add_full m t1 (x, f) (Some j) w = (None, t2) /\ only_cell t t2 (x, f) (py_insert j w l1).
+Proof.
+  intros Hc Ho t i w l1 j Pp Ck Abs.
+  destruct (coll_pop_loose_ok m t x f i w l1 Hc Ho Pp) as (t1 & E1 & O1).
+  assert (OC1 : only_cell t t1 (x, f) l1) by (apply obs4_only_cell; exact O1).
+  exists t1. split; [exact E1|]. split; [exact (only_cell_vals _ _ _ _ OC1)|].
+  destruct (coll_add_loose_ok m t1 x f (Some j) w Hc Ho Ck) as (t2 & E2 & O2).
+  exists t2. split; [exact E2|].
+  rewrite (only_cell_vals _ _ _ _ OC1), (raw_insert_absent _ _ _ _ Abs) in O2.
+  eapply only_cell_trans; [exact OC1 | apply obs4_only_cell; exact O2].
+Qed.
+
+Lemma move_loose_inverts m (f : fid) s (x : oid) v from to c1 s' c' :
+  loose m f -> cell_wt m f (vals s (x, f)) ->
+  (is_none v = true \/ from = None) ->
+  can_execute m s (CMove x f v from to) = (Ok true, c1) ->
+  execute m s c1 = ((None, s'), c') ->
+  exists fr w to' l2, c' = CMove x f w (Some fr) to' /\ inverts m c' s s' /\ only_cell s s' (x, f) l2.
+Proof.
+  intros (M & Hc & Ho) W Hx HC HE. unfold cell_wt in W. rewrite M in W. destruct W as [Wc Wn].
+  apply (move_gen_inverts m x f (fun _ w => check_elem m f w = true) M) with (v := v) (from := from) (to := to) (c1 := c1);
+    try assumption.
+  - intros t t' w _ H. exact H.
+  - intros t t' l w _ H. exact H.
+  - intros t i w l1 j. apply pop_add_loose; assumption.
+  - intros i w l1 Pp U. destruct (C01Full.py_pop_nth i _ _ _ Pp) as (n & Hn & ->).
+    apply nodupv_removed_notin; [apply Wn; exact U | exact Hn].
+Qed.
+
+(* ---------- C07Full's uniq_ok (a unique collection holds an object at most once) alone, for the three
+   procedures the primitive commands call ---------- *)
+Section UniqOk.
+Variable m : mm.
+Hypothesis Hwf : wf_opp m.
+
+Lemma uniq_ok_set_full s (x : oid) (f : fid) v :
+  C07Full.uniq_ok m s -> C07Full.uniq_ok m (snd (set_full m s (x, f) v)).
+Proof.
+  intros U.
+  destruct (C07Full.tracked_dec m f) as [T|T];
+    [|exact (C07Full.nd_uniq m s _ (proj1 (C07Full.good_set_full m Hwf s x f v (or_intror T))) U)].
+  destruct (obj_of v) as [y|] eqn:Ev;
+    [|exact (C07Full.nd_uniq m s _ (proj1 (C07Full.good_set_full m Hwf s x f v (or_introl Ev))) U)].
+  apply obj_of_Some' in Ev. subst v. destruct T as [Hr [Ho Hmu]].
+  unfold set_full. cbv beta iota zeta.
+  destruct (check_single m f (VObj y)); cbn [negb snd]; [|exact U].
+  rewrite Hr, Ho. cbn [negb snd obj_of].
+  set (s1 := set_store m s (x, f) (VObj y)).
+  set (s2 := update_container m s1 x f (Some y) (obj_of (single s (x, f)))).
+  assert (U1 : C07Full.uniq_ok m s1) by (apply (C07Full.nd_uniq m s); [apply C07Full.nd_set_store | exact U]).
+  pose proof (C07Full.good_update_container m s1 x f (Some y) (obj_of (single s (x, f)))) as [N2 _]. fold s2 in N2.
+  intros a h Hu. rewrite C07Full.vals_inv_add'.
+  assert (V3 : vals (match obj_of (single s (x, f)) with Some q => inv_del s2 q (x, f) | None => s2 end) = vals s2)
+    by (destruct (obj_of (single s (x, f))); reflexivity).
+  rewrite V3. apply (C07Full.nd_uniq m s1 s2 N2 U1). exact Hu.
+Qed.
+
+Lemma uniq_ok_coll_add_full s (x : oid) (f : fid) pos v :
+  C07Full.uniq_ok m s -> C07Full.uniq_ok m (snd (coll_add_full m s (x, f) pos v)).
+Proof.
+  intros U. unfold coll_add_full. cbv beta iota zeta.
+  destruct (check_elem m f v); cbn [negb snd]; [|exact U].
+  pose proof (C07Full.nd_uniq m s _ (proj1 (C07Full.good_link_elem m Hwf s x f v)) U) as U1.
+  intros a h Hu. cbn [vals set_isset notify push_log set_vals]. unfold upd.
+  destruct (cell_eqb_spec (x, f) (a, h)) as [E|N]; [|apply U1; exact Hu].
+  inversion E; subst a h. rewrite Hu.
+  destruct pos; [apply nodup_raw_insert | apply nodup_raw_append]; apply U1; exact Hu.
+Qed.
+
+Lemma uniq_ok_coll_pop_full s (x : oid) (f : fid) i :
+  f_many (fd m f) = true -> C07Full.uniq_ok m s -> C07Full.uniq_ok m (snd (fst (coll_pop_full m s (x, f) i))).
+Proof. intros M U. exact (C07Full.nd_uniq m s _ (proj1 (C07Full.good_coll_pop_full m s x f i M)) U). Qed.
+
+End UniqOk.
